@@ -1,9 +1,10 @@
 import SamVerif.Model.StdSet
+import SamVerif.Lemmas.StdMap
 /-! Lemmas about `Model/StdSet.lean`: invariants, `unsafeNode`/`create`/`balanced`, and the
 specifications of every rebuilding operation (same plan as `Lemmas/StdMap.lean`/`StdMapOps.lean`). -/
 namespace SamVerif.StdSet
 set_option linter.unusedSectionVars false
-variable {E : Type} [DecidableEq E]
+variable {E : Type} [DecidableEq E] [LE E] [LT E] [Std.IsLinearOrder E] [Std.LawfulOrderLT E] [DecidableLT E]
 
 @[simp] theorem height_empty : height (STree.empty : STree E) = 0 := rfl
 @[simp] theorem height_leaf (v : E) : height (STree.leaf v) = 1 := rfl
@@ -18,21 +19,21 @@ def Bal : STree E → Prop
       height l ≤ height r + 2 ∧ height r ≤ height l + 2 ∧ h ≥ 2
 
 /-- `cmp` is a total order on elements, represented by an order embedding `rank` into `Int`. -/
-structure Lawful (cmp : E → E → Int) (rank : E → Int) : Prop where
-  lt : ∀ a b, cmp a b < 0 ↔ rank a < rank b
+structure Lawful (cmp : E → E → Int) : Prop where
+  lt : ∀ a b, cmp a b < 0 ↔ a < b
   eq : ∀ a b, cmp a b = 0 ↔ a = b
-  gt : ∀ a b, cmp a b > 0 ↔ rank b < rank a
+  gt : ∀ a b, cmp a b > 0 ↔ b < a
 
-def Ordered (rank : E → Int) (t : STree E) : Prop := (abs t).Pairwise (fun a b => rank a < rank b)
+def Ordered (t : STree E) : Prop := (abs t).Pairwise (fun a b => a < b)
 
 theorem height_nonneg (t : STree E) (h : Bal t) : 0 ≤ height t := by
-  cases t <;> simp_all [Bal] <;> omega
+  cases t <;> simp_all [Bal] <;> oo
 
 theorem height_zero (t : STree E) (h : Bal t) (h0 : height t = 0) : t = .empty := by
-  cases t <;> simp_all [Bal] <;> omega
+  cases t <;> simp_all [Bal] <;> oo
 
 theorem height_one (t : STree E) (h : Bal t) (h0 : height t = 1) : ∃ v, t = .leaf v := by
-  cases t <;> simp_all [Bal] <;> omega
+  cases t <;> simp_all [Bal] <;> oo
 
 theorem bal_node {h : Int} {v : E} {l r : STree E} (hb : Bal (.node h v l r)) :
     Bal l ∧ Bal r ∧ h = Max.max (height l) (height r) + 1 ∧ height l ≤ height r + 2 ∧
@@ -45,7 +46,7 @@ theorem unsafeNode_spec (l r : STree E) (v : E) (hl : Bal l) (hr : Bal r)
     (h1 : height l ≤ height r + 2) (h2 : height r ≤ height l + 2) :
     Bal (unsafeNode l v r) ∧ abs (unsafeNode l v r) = abs l ++ v :: abs r ∧
       height (unsafeNode l v r) = Max.max (height l) (height r) + 1 := by
-  cases l <;> cases r <;> simp_all [unsafeNode, Bal, abs] <;> (try split) <;> omega
+  cases l <;> cases r <;> simp_all [unsafeNode, Bal, abs] <;> (try split) <;> oo
 
 theorem create_spec (l r : STree E) (v : E) (hl : Bal l) (hr : Bal r)
     (h1 : height l ≤ height r + 2) (h2 : height r ≤ height l + 2) (hne : height l ≥ 1 ∨ height r ≥ 1) :
@@ -54,8 +55,8 @@ theorem create_spec (l r : STree E) (v : E) (hl : Bal l) (hr : Bal r)
   have := height_nonneg l hl
   have := height_nonneg r hr
   by_cases hc : height l ≥ height r
-  · simp [create, hc, Bal, abs, hl, hr]; omega
-  · simp [create, hc, Bal, abs, hl, hr]; omega
+  · simp [create, hc, Bal, abs, hl, hr]; oo
+  · simp [create, hc, Bal, abs, hl, hr]; oo
 
 theorem balanced_spec (l r : STree E) (v : E) (hl : Bal l) (hr : Bal r)
     (h1 : height l ≤ height r + 3) (h2 : height r ≤ height l + 3) :
@@ -66,74 +67,74 @@ theorem balanced_spec (l r : STree E) (v : E) (hl : Bal l) (hr : Bal r)
   have nr := height_nonneg r hr
   by_cases c1 : height l > height r + 2
   · cases l with
-    | empty => simp at c1; omega
-    | leaf a => simp at c1; omega
+    | empty => simp at c1; oo
+    | leaf a => simp at c1; oo
     | node lh lv ll lr =>
       obtain ⟨bll, blr, hh, d1, d2, nll, nlr⟩ := bal_node hl
       simp only [height_node] at c1 h1 h2 nl ⊢
       by_cases c2 : height ll ≥ height lr
-      · obtain ⟨b1, a1, e1⟩ := unsafeNode_spec lr r v blr hr (by omega) (by omega)
-        obtain ⟨b2, a2, e2⟩ := create_spec ll (unsafeNode lr v r) lv bll b1 (by omega) (by omega) (by omega)
-        refine ⟨_, by simp [balanced, c1, c2], b2, by simp [a2, a1, abs], ?_, ?_, ?_⟩ <;> omega
+      · obtain ⟨b1, a1, e1⟩ := unsafeNode_spec lr r v blr hr (by oo) (by oo)
+        obtain ⟨b2, a2, e2⟩ := create_spec ll (unsafeNode lr v r) lv bll b1 (by oo) (by oo) (by oo)
+        refine ⟨_, by simp [balanced, c1, c2], b2, by simp [a2, a1, abs], ?_, ?_, ?_⟩ <;> oo
       · cases lr with
-        | empty => simp at c2; omega
-        | leaf a => simp at c2 hh; omega
+        | empty => simp at c2; oo
+        | leaf a => simp at c2 hh; oo
         | node lrh lrv lrl lrr =>
           obtain ⟨blrl, blrr, hh2, d3, d4, n3, n4⟩ := bal_node blr
           simp only [height_node] at c2 hh d1 d2 nlr
-          obtain ⟨b1, a1, e1⟩ := unsafeNode_spec ll lrl lv bll blrl (by omega) (by omega)
-          obtain ⟨b3, a3, e3⟩ := unsafeNode_spec lrr r v blrr hr (by omega) (by omega)
+          obtain ⟨b1, a1, e1⟩ := unsafeNode_spec ll lrl lv bll blrl (by oo) (by oo)
+          obtain ⟨b3, a3, e3⟩ := unsafeNode_spec lrr r v blrr hr (by oo) (by oo)
           obtain ⟨b2, a2, e2⟩ := create_spec (unsafeNode ll lv lrl) (unsafeNode lrr v r) lrv b1 b3
-            (by omega) (by omega) (by omega)
-          refine ⟨_, by simp [balanced, c1, c2], b2, by simp [a2, a1, a3, abs], ?_, ?_, ?_⟩ <;> omega
+            (by oo) (by oo) (by oo)
+          refine ⟨_, by simp [balanced, c1, c2], b2, by simp [a2, a1, a3, abs], ?_, ?_, ?_⟩ <;> oo
   · by_cases c3 : height r > height l + 2
     · cases r with
-      | empty => simp at c3; omega
-      | leaf a => simp at c3; omega
+      | empty => simp at c3; oo
+      | leaf a => simp at c3; oo
       | node rh rv rl rr =>
         obtain ⟨brl, brr, hh, d1, d2, nrl, nrr⟩ := bal_node hr
         simp only [height_node] at c1 c3 h1 h2 nr ⊢
         by_cases c2 : height rr ≥ height rl
-        · obtain ⟨b1, a1, e1⟩ := unsafeNode_spec l rl v hl brl (by omega) (by omega)
-          obtain ⟨b2, a2, e2⟩ := create_spec (unsafeNode l v rl) rr rv b1 brr (by omega) (by omega) (by omega)
-          refine ⟨_, by simp [balanced, c1, c3, c2], b2, by simp [a2, a1, abs], ?_, ?_, ?_⟩ <;> omega
+        · obtain ⟨b1, a1, e1⟩ := unsafeNode_spec l rl v hl brl (by oo) (by oo)
+          obtain ⟨b2, a2, e2⟩ := create_spec (unsafeNode l v rl) rr rv b1 brr (by oo) (by oo) (by oo)
+          refine ⟨_, by simp [balanced, c1, c3, c2], b2, by simp [a2, a1, abs], ?_, ?_, ?_⟩ <;> oo
         · cases rl with
-          | empty => simp at c2; omega
-          | leaf a => simp at c2 hh; omega
+          | empty => simp at c2; oo
+          | leaf a => simp at c2 hh; oo
           | node rlh rlv rll rlr =>
             obtain ⟨brll, brlr, hh2, d3, d4, n3, n4⟩ := bal_node brl
             simp only [height_node] at c2 hh d1 d2 nrl
-            obtain ⟨b1, a1, e1⟩ := unsafeNode_spec l rll v hl brll (by omega) (by omega)
-            obtain ⟨b3, a3, e3⟩ := unsafeNode_spec rlr rr rv brlr brr (by omega) (by omega)
+            obtain ⟨b1, a1, e1⟩ := unsafeNode_spec l rll v hl brll (by oo) (by oo)
+            obtain ⟨b3, a3, e3⟩ := unsafeNode_spec rlr rr rv brlr brr (by oo) (by oo)
             obtain ⟨b2, a2, e2⟩ := create_spec (unsafeNode l v rll) (unsafeNode rlr rv rr) rlv b1 b3
-              (by omega) (by omega) (by omega)
-            refine ⟨_, by simp [balanced, c1, c3, c2], b2, by simp [a2, a1, a3, abs], ?_, ?_, ?_⟩ <;> omega
-    · obtain ⟨b1, a1, e1⟩ := unsafeNode_spec l r v hl hr (by omega) (by omega)
-      refine ⟨_, by simp [balanced, c1, c3], b1, a1, ?_, ?_, ?_⟩ <;> omega
+              (by oo) (by oo) (by oo)
+            refine ⟨_, by simp [balanced, c1, c3, c2], b2, by simp [a2, a1, a3, abs], ?_, ?_, ?_⟩ <;> oo
+    · obtain ⟨b1, a1, e1⟩ := unsafeNode_spec l r v hl hr (by oo) (by oo)
+      refine ⟨_, by simp [balanced, c1, c3], b1, a1, ?_, ?_, ?_⟩ <;> oo
 
-macro "hfin" : tactic => `(tactic| (first | (simp; done) | (simp; omega) | omega))
-macro "balfin" : tactic => `(tactic| (first | (simp [Bal]; done) | (simp [Bal]; omega)))
+macro "hfin" : tactic => `(tactic| (first | (simp; done) | (simp; oo) | oo))
+macro "balfin" : tactic => `(tactic| (first | (simp [Bal]; done) | (simp [Bal]; oo)))
 
-theorem ordered_node {rank : E → Int} {h : Int} {v : E} {l r : STree E}
-    (ho : Ordered rank (.node h v l r)) :
-    Ordered rank l ∧ Ordered rank r ∧ (∀ p ∈ abs l, rank p < rank v) ∧ (∀ p ∈ abs r, rank v < rank p) := by
+theorem ordered_node {h : Int} {v : E} {l r : STree E}
+    (ho : Ordered (.node h v l r)) :
+    Ordered l ∧ Ordered r ∧ (∀ p ∈ abs l, p < v) ∧ (∀ p ∈ abs r, v < p) := by
   simp only [Ordered, abs, List.pairwise_append, List.pairwise_cons] at ho
   obtain ⟨h1, ⟨h2, h3⟩, h4⟩ := ho
   exact ⟨h1, h3, fun p hp => h4 p hp v (by simp), h2⟩
 
-theorem ordered_of_parts {rank : E → Int} {v : E} {a b : List E}
-    (ha : a.Pairwise (fun x y => rank x < rank y)) (hb : b.Pairwise (fun x y => rank x < rank y))
-    (h1 : ∀ p ∈ a, rank p < rank v) (h2 : ∀ p ∈ b, rank v < rank p) :
-    (a ++ v :: b).Pairwise (fun x y => rank x < rank y) := by
+theorem ordered_of_parts {v : E} {a b : List E}
+    (ha : a.Pairwise (fun x y => x < y)) (hb : b.Pairwise (fun x y => x < y))
+    (h1 : ∀ p ∈ a, p < v) (h2 : ∀ p ∈ b, v < p) :
+    (a ++ v :: b).Pairwise (fun x y => x < y) := by
   simp only [List.pairwise_append, List.pairwise_cons]
   refine ⟨ha, ⟨h2, hb⟩, ?_⟩
   intro x hx y hy
   rcases List.mem_cons.1 hy with e | e
   · subst e; exact h1 x hx
-  · have := h1 x hx; have := h2 y e; omega
+  · have := h1 x hx; have := h2 y e; oo
 
-theorem contains_spec {cmp : E → E → Int} {rank : E → Int} (hc : Lawful cmp rank) (t : STree E)
-    (ho : Ordered rank t) (x : E) : contains cmp t x = true ↔ x ∈ abs t := by
+theorem contains_spec {cmp : E → E → Int} (hc : Lawful cmp) (t : STree E)
+    (ho : Ordered t) (x : E) : contains cmp t x = true ↔ x ∈ abs t := by
   induction t with
   | empty => simp [contains, abs]
   | leaf v =>
@@ -158,19 +159,19 @@ theorem contains_spec {cmp : E → E → Int} {rank : E → Int} (hc : Lawful cm
         · rintro (h1 | h1 | h1)
           · exact h1
           · exact absurd h1 nq
-          · have := br x h1; omega
-      · have gt := hgt.1 (by omega)
+          · have := br x h1; oo
+      · have gt := hgt.1 (by oo)
         simp only [c0, c1, if_false, false_or, ir]
         constructor
         · intro h1; exact Or.inr (Or.inr h1)
         · rintro (h1 | h1 | h1)
-          · have := bl x h1; omega
+          · have := bl x h1; oo
           · exact absurd h1 nq
           · exact h1
 
-theorem insert_spec {cmp : E → E → Int} {rank : E → Int} (hc : Lawful cmp rank) (t : STree E) (x : E)
-    (hb : Bal t) (ho : Ordered rank t) :
-    ∃ t', insert cmp t x = some t' ∧ Bal t' ∧ Ordered rank t' ∧
+theorem insert_spec {cmp : E → E → Int} (hc : Lawful cmp) (t : STree E) (x : E)
+    (hb : Bal t) (ho : Ordered t) :
+    ∃ t', insert cmp t x = some t' ∧ Bal t' ∧ Ordered t' ∧
       (∀ p, p ∈ abs t' ↔ (p = x ∨ p ∈ abs t)) ∧
       height t ≤ height t' ∧ height t' ≤ height t + 1 := by
   induction t with
@@ -187,7 +188,7 @@ theorem insert_spec {cmp : E → E → Int} {rank : E → Int} (hc : Lawful cmp 
         · simp [Ordered, abs]; exact hlt.1 c1
         · simp [abs]
       · refine ⟨.node 2 x (.leaf v) .empty, by simp [c0, c1, unsafeNode], by balfin, ?_, ?_, by hfin, by hfin⟩
-        · simp [Ordered, abs]; exact hgt.1 (by omega)
+        · simp [Ordered, abs]; exact hgt.1 (by oo)
         · simp [abs]; intro p; exact or_comm
   | node h v l r ihl ihr =>
     have hlt := hc.lt x v; have heq := hc.eq x v; have hgt := hc.gt x v
@@ -206,8 +207,8 @@ theorem insert_spec {cmp : E → E → Int} {rank : E → Int} (hc : Lawful cmp 
         · exact h1
     · by_cases c1 : cmp x v < 0
       · obtain ⟨ll, e, b1, o1, m1, g1, g2⟩ := ihl bll ol
-        obtain ⟨t', e2, b2, a2, g3, g4, g5⟩ := balanced_spec ll r v b1 brr (by omega) (by omega)
-        have ord : (abs ll ++ v :: abs r).Pairwise (fun a b => rank a < rank b) := by
+        obtain ⟨t', e2, b2, a2, g3, g4, g5⟩ := balanced_spec ll r v b1 brr (by oo) (by oo)
+        have ord : (abs ll ++ v :: abs r).Pairwise (fun a b => a < b) := by
           apply ordered_of_parts o1 or _ br
           intro p hp
           rcases (m1 p).1 hp with hp | hp
@@ -233,11 +234,11 @@ theorem insert_spec {cmp : E → E → Int} {rank : E → Int} (hc : Lawful cmp 
         · subst same
           exact ⟨.node h v l r, by simp [c0, c1, e], hb, ho, by simpa [abs] using mem, by hfin, by hfin⟩
         · refine ⟨t', by simp [c0, c1, e, same, e2], b2, by simpa [Ordered, a2] using ord,
-            by simpa [a2, abs] using mem, ?_, ?_⟩ <;> simp only [height_node] <;> omega
-      · have c2 : cmp x v > 0 := by omega
+            by simpa [a2, abs] using mem, ?_, ?_⟩ <;> simp only [height_node] <;> oo
+      · have c2 : cmp x v > 0 := by oo
         obtain ⟨rr, e, b1, o1, m1, g1, g2⟩ := ihr brr or
-        obtain ⟨t', e2, b2, a2, g3, g4, g5⟩ := balanced_spec l rr v bll b1 (by omega) (by omega)
-        have ord : (abs l ++ v :: abs rr).Pairwise (fun a b => rank a < rank b) := by
+        obtain ⟨t', e2, b2, a2, g3, g4, g5⟩ := balanced_spec l rr v bll b1 (by oo) (by oo)
+        have ord : (abs l ++ v :: abs rr).Pairwise (fun a b => a < b) := by
           apply ordered_of_parts ol o1 bl
           intro p hp
           rcases (m1 p).1 hp with hp | hp
@@ -263,7 +264,7 @@ theorem insert_spec {cmp : E → E → Int} {rank : E → Int} (hc : Lawful cmp 
         · subst same
           exact ⟨.node h v l r, by simp [c0, c1, e], hb, ho, by simpa [abs] using mem, by hfin, by hfin⟩
         · refine ⟨t', by simp [c0, c1, e, same, e2], b2, by simpa [Ordered, a2] using ord,
-            by simpa [a2, abs] using mem, ?_, ?_⟩ <;> simp only [height_node] <;> omega
+            by simpa [a2, abs] using mem, ?_, ?_⟩ <;> simp only [height_node] <;> oo
 
 theorem addMinElement_spec (x : E) (t : STree E) (hb : Bal t) :
     ∃ t', addMinElement x t = some t' ∧ Bal t' ∧ abs t' = x :: abs t ∧
@@ -274,9 +275,9 @@ theorem addMinElement_spec (x : E) (t : STree E) (hb : Bal t) :
   | node h v l r ihl _ =>
     obtain ⟨bl, br, hh, d1, d2, nl, nr⟩ := bal_node hb
     obtain ⟨l', e, b1, a1, g1, g2⟩ := ihl bl
-    obtain ⟨t', e2, b2, a2, g3, g4, g5⟩ := balanced_spec l' r v b1 br (by omega) (by omega)
+    obtain ⟨t', e2, b2, a2, g3, g4, g5⟩ := balanced_spec l' r v b1 br (by oo) (by oo)
     refine ⟨t', by simp [addMinElement, e, e2], b2, by simp [a2, a1, abs], ?_, ?_⟩ <;>
-      (try simp only [height_node]) <;> omega
+      (try simp only [height_node]) <;> oo
 
 theorem addMaxElement_spec (x : E) (t : STree E) (hb : Bal t) :
     ∃ t', addMaxElement x t = some t' ∧ Bal t' ∧ abs t' = abs t ++ [x] ∧
@@ -287,9 +288,9 @@ theorem addMaxElement_spec (x : E) (t : STree E) (hb : Bal t) :
   | node h v l r _ ihr =>
     obtain ⟨bl, br, hh, d1, d2, nl, nr⟩ := bal_node hb
     obtain ⟨r', e, b1, a1, g1, g2⟩ := ihr br
-    obtain ⟨t', e2, b2, a2, g3, g4, g5⟩ := balanced_spec l r' v bl b1 (by omega) (by omega)
+    obtain ⟨t', e2, b2, a2, g3, g4, g5⟩ := balanced_spec l r' v bl b1 (by oo) (by oo)
     refine ⟨t', by simp [addMaxElement, e, e2], b2, by simp [a2, a1, abs], ?_, ?_⟩ <;>
-      (try simp only [height_node]) <;> omega
+      (try simp only [height_node]) <;> oo
 
 theorem join_spec (l r : STree E) (v : E) (hl : Bal l) (hr : Bal r) :
     ∃ t, join l v r = some t ∧ Bal t ∧ abs t = abs l ++ v :: abs r ∧
@@ -298,16 +299,16 @@ theorem join_spec (l r : STree E) (v : E) (hl : Bal l) (hr : Bal r) :
   case case1 v r =>
     obtain ⟨t, e, b, a, g1, g2⟩ := addMinElement_spec v r hr
     have := height_nonneg r hr
-    exact ⟨t, e, b, by simp [a, abs], by simp only [height_empty]; omega, by simp only [height_empty]; omega⟩
+    exact ⟨t, e, b, by simp [a, abs], by simp only [height_empty]; oo, by simp only [height_empty]; oo⟩
   case case2 a v =>
     obtain ⟨t, e, b, a, g1, g2⟩ := addMaxElement_spec v (.leaf a) hl
-    exact ⟨t, e, b, by simp [a, abs], by simp only [height_empty, height_leaf] at *; omega,
-      by simp only [height_empty, height_leaf] at *; omega⟩
+    exact ⟨t, e, b, by simp [a, abs], by simp only [height_empty, height_leaf] at *; oo,
+      by simp only [height_empty, height_leaf] at *; oo⟩
   case case3 lh lv ll lr v =>
     obtain ⟨t, e, b, a, g1, g2⟩ := addMaxElement_spec v _ hl
     obtain ⟨_, _, hh, _, _, _, _⟩ := bal_node hl
-    exact ⟨t, e, b, by simp [a, abs], by simp only [height_empty, height_node] at *; omega,
-      by simp only [height_empty, height_node] at *; omega⟩
+    exact ⟨t, e, b, by simp [a, abs], by simp only [height_empty, height_node] at *; oo,
+      by simp only [height_empty, height_node] at *; oo⟩
   case case4 a v c =>
     exact ⟨_, rfl, by simp [unsafeNode, Bal], by simp [unsafeNode, abs], by simp [unsafeNode], by simp [unsafeNode]⟩
   case case5 a v rh rv rl rr h x ih =>
@@ -319,14 +320,14 @@ theorem join_spec (l r : STree E) (v : E) (hl : Bal l) (hr : Bal r) :
     obtain ⟨t, e, b1, a1, g1, g2⟩ := ih hl brl
     rw [e] at x; cases x
     simp only [height_leaf] at g1 g2
-    obtain ⟨t2, e2, b2, a2, g3, g4, g5⟩ := balanced_spec t' rr rv b1 brr (by omega) (by omega)
-    refine ⟨t2, e2, b2, by simp [a2, a1, abs], ?_, ?_⟩ <;> simp only [height_leaf, height_node] <;> omega
+    obtain ⟨t2, e2, b2, a2, g3, g4, g5⟩ := balanced_spec t' rr rv b1 brr (by oo) (by oo)
+    refine ⟨t2, e2, b2, by simp [a2, a1, abs], ?_, ?_⟩ <;> simp only [height_leaf, height_node] <;> oo
   case case7 a v rh rv rl rr h =>
     obtain ⟨brl, brr, hh, d1, d2, n1, n2⟩ := bal_node hr
     obtain ⟨b1, a1, e1⟩ := create_spec (.leaf a) (.node rh rv rl rr) v hl hr
-      (by simp only [height_leaf, height_node]; omega) (by simp only [height_leaf, height_node]; omega)
+      (by simp only [height_leaf, height_node]; oo) (by simp only [height_leaf, height_node]; oo)
       (by simp)
-    refine ⟨_, rfl, b1, a1, ?_, ?_⟩ <;> rw [e1] <;> omega
+    refine ⟨_, rfl, b1, a1, ?_, ?_⟩ <;> rw [e1] <;> oo
   case case8 lh lv ll lr v c h x ih =>
     obtain ⟨bll, blr, hh, d1, d2, n1, n2⟩ := bal_node hl
     obtain ⟨t, e, _⟩ := ih blr hr
@@ -336,14 +337,14 @@ theorem join_spec (l r : STree E) (v : E) (hl : Bal l) (hr : Bal r) :
     obtain ⟨t, e, b1, a1, g1, g2⟩ := ih blr hr
     rw [e] at x; cases x
     simp only [height_leaf] at g1 g2
-    obtain ⟨t2, e2, b2, a2, g3, g4, g5⟩ := balanced_spec ll t' lv bll b1 (by omega) (by omega)
-    refine ⟨t2, e2, b2, by simp [a2, a1, abs], ?_, ?_⟩ <;> simp only [height_leaf, height_node] <;> omega
+    obtain ⟨t2, e2, b2, a2, g3, g4, g5⟩ := balanced_spec ll t' lv bll b1 (by oo) (by oo)
+    refine ⟨t2, e2, b2, by simp [a2, a1, abs], ?_, ?_⟩ <;> simp only [height_leaf, height_node] <;> oo
   case case10 lh lv ll lr v c h =>
     obtain ⟨bll, blr, hh, d1, d2, n1, n2⟩ := bal_node hl
     obtain ⟨b1, a1, e1⟩ := create_spec (.node lh lv ll lr) (.leaf c) v hl hr
-      (by simp only [height_leaf, height_node]; omega) (by simp only [height_leaf, height_node]; omega)
+      (by simp only [height_leaf, height_node]; oo) (by simp only [height_leaf, height_node]; oo)
       (by simp)
-    refine ⟨_, rfl, b1, a1, ?_, ?_⟩ <;> rw [e1] <;> omega
+    refine ⟨_, rfl, b1, a1, ?_, ?_⟩ <;> rw [e1] <;> oo
   case case11 lh lv ll lr v rh rv rl rr h x ih =>
     obtain ⟨bll, blr, hh, d1, d2, n1, n2⟩ := bal_node hl
     obtain ⟨t, e, _⟩ := ih blr hr
@@ -354,8 +355,8 @@ theorem join_spec (l r : STree E) (v : E) (hl : Bal l) (hr : Bal r) :
     obtain ⟨t, e, b1, a1, g1, g2⟩ := ih blr hr
     rw [e] at x; cases x
     simp only [height_node] at g1 g2
-    obtain ⟨t2, e2, b2, a2, g3, g4, g5⟩ := balanced_spec ll t' lv bll b1 (by omega) (by omega)
-    refine ⟨t2, e2, b2, by simp [a2, a1, abs], ?_, ?_⟩ <;> simp only [height_node] <;> omega
+    obtain ⟨t2, e2, b2, a2, g3, g4, g5⟩ := balanced_spec ll t' lv bll b1 (by oo) (by oo)
+    refine ⟨t2, e2, b2, by simp [a2, a1, abs], ?_, ?_⟩ <;> simp only [height_node] <;> oo
   case case13 lh lv ll lr v rh rv rl rr h1 h2 x ih =>
     obtain ⟨brl, brr, hh', d1', d2', n1', n2'⟩ := bal_node hr
     obtain ⟨t, e, _⟩ := ih hl brl
@@ -366,13 +367,13 @@ theorem join_spec (l r : STree E) (v : E) (hl : Bal l) (hr : Bal r) :
     obtain ⟨t, e, b1, a1, g1, g2⟩ := ih hl brl
     rw [e] at x; cases x
     simp only [height_node] at g1 g2
-    obtain ⟨t2, e2, b2, a2, g3, g4, g5⟩ := balanced_spec t' rr rv b1 brr (by omega) (by omega)
-    refine ⟨t2, e2, b2, by simp [a2, a1, abs], ?_, ?_⟩ <;> simp only [height_node] <;> omega
+    obtain ⟨t2, e2, b2, a2, g3, g4, g5⟩ := balanced_spec t' rr rv b1 brr (by oo) (by oo)
+    refine ⟨t2, e2, b2, by simp [a2, a1, abs], ?_, ?_⟩ <;> simp only [height_node] <;> oo
   case case15 lh lv ll lr v rh rv rl rr h1 h2 =>
     obtain ⟨bll, blr, hh, d1, d2, n1, n2⟩ := bal_node hl
     obtain ⟨b1, a1, e1⟩ := create_spec (.node lh lv ll lr) (.node rh rv rl rr) v hl hr
-      (by simp only [height_node]; omega) (by simp only [height_node]; omega) (by simp only [height_node]; omega)
-    refine ⟨_, rfl, b1, a1, ?_, ?_⟩ <;> rw [e1] <;> omega
+      (by simp only [height_node]; oo) (by simp only [height_node]; oo) (by simp only [height_node]; oo)
+    refine ⟨_, rfl, b1, a1, ?_, ?_⟩ <;> rw [e1] <;> oo
 
 theorem isEmpty_iff (t : STree E) : isEmpty t = true ↔ abs t = [] := by
   cases t <;> simp [isEmpty, abs]
@@ -408,7 +409,7 @@ theorem size_refines (t : STree E) : size t = ((abs t).length : Int) := by
   induction t with
   | empty => rfl
   | leaf v => rfl
-  | node h v l r ihl ihr => simp [size, abs, ihl, ihr]; omega
+  | node h v l r ihl ihr => simp [size, abs, ihl, ihr]; oo
 
 theorem elements_refines (t : STree E) : elements t = abs t := by
   have h : ∀ (t : STree E) (acc : List E), elementsHelper t acc = abs t ++ acc := by
@@ -453,19 +454,19 @@ theorem removeMin_spec (t : STree E) (hb : Bal t) (hne : abs t ≠ []) :
     cases l with
     | empty =>
       simp only [height_empty] at *
-      exact ⟨r, by simp [removeMin], br, by simp [abs], by simp only [height_node]; omega, by simp only [height_node]; omega⟩
+      exact ⟨r, by simp [removeMin], br, by simp [abs], by simp only [height_node]; oo, by simp only [height_node]; oo⟩
     | leaf a =>
       simp only [height_leaf] at *
       obtain ⟨t', e2, b2, a2, g3, g4, g5⟩ := balanced_spec .empty r v (by simp [Bal]) br
-        (by simp only [height_empty]; omega) (by simp only [height_empty]; omega)
+        (by simp only [height_empty]; oo) (by simp only [height_empty]; oo)
       simp only [height_empty] at *
-      exact ⟨t', by simp [removeMin, e2], b2, by simp [a2, abs], by simp only [height_node]; omega, by simp only [height_node]; omega⟩
+      exact ⟨t', by simp [removeMin, e2], b2, by simp [a2, abs], by simp only [height_node]; oo, by simp only [height_node]; oo⟩
     | node h' v' l' r' =>
       have ne : abs (STree.node h' v' l' r') ≠ [] := by simp [abs]
       obtain ⟨l2, e, b1, a1, g1, g2⟩ := ihl bl ne
       simp only [height_node] at *
-      obtain ⟨t', e2, b2, a2, g3, g4, g5⟩ := balanced_spec l2 r v b1 br (by omega) (by omega)
-      refine ⟨t', by rw [removeMin]; simp only [e]; exact e2, b2, ?_, by omega, by omega⟩
+      obtain ⟨t', e2, b2, a2, g3, g4, g5⟩ := balanced_spec l2 r v b1 br (by oo) (by oo)
+      refine ⟨t', by rw [removeMin]; simp only [e]; exact e2, b2, ?_, by oo, by oo⟩
       rw [a2, a1]
       rw [show abs (STree.node h v (STree.node h' v' l' r') r) =
         abs (STree.node h' v' l' r') ++ v :: abs r from rfl]
@@ -518,28 +519,28 @@ theorem internalMerge_spec (t1 t2 : STree E) (h1 : Bal t1) (h2 : Bal t2)
   have n2 := height_nonneg t2 h2
   by_cases e1 : t1 = .empty
   · subst e1
-    exact ⟨t2, by simp [internalMerge], h2, by simp [abs], by simp only [height_empty]; omega, by simp only [height_empty]; omega⟩
+    exact ⟨t2, by simp [internalMerge], h2, by simp [abs], by simp only [height_empty]; oo, by simp only [height_empty]; oo⟩
   by_cases e2 : t2 = .empty
   · subst e2
-    exact ⟨t1, by cases t1 <;> simp_all [internalMerge], h1, by simp [abs], by simp only [height_empty]; omega, by simp only [height_empty]; omega⟩
+    exact ⟨t1, by cases t1 <;> simp_all [internalMerge], h1, by simp [abs], by simp only [height_empty]; oo, by simp only [height_empty]; oo⟩
   have ne2 : abs t2 ≠ [] := by cases t2 <;> simp_all [abs]
   obtain ⟨m, t2', em, er, b1, a1, g1, g2⟩ := min_tail t2 h2 ne2
-  obtain ⟨t, e3, b3, a3, g3, g4, g5⟩ := balanced_spec t1 t2' m h1 b1 (by omega) (by omega)
+  obtain ⟨t, e3, b3, a3, g3, g4, g5⟩ := balanced_spec t1 t2' m h1 b1 (by oo) (by oo)
   have p1 : 1 ≤ height t1 := by
     cases t1 with
     | empty => exact absurd rfl e1
     | leaf a => simp
-    | node h v l r => have := (bal_node h1); simp only [height_node]; omega
-  refine ⟨t, ?_, b3, by rw [a3, a1], by omega, by omega⟩
+    | node h v l r => have := (bal_node h1); simp only [height_node]; oo
+  refine ⟨t, ?_, b3, by rw [a3, a1], by oo, by oo⟩
   cases t1 <;> cases t2 <;> simp_all [internalMerge]
 
 theorem pairwise_drop_mid {R : E → E → Prop} {a b : List E} {x : E}
     (h : (a ++ x :: b).Pairwise R) : (a ++ b).Pairwise R :=
   h.sublist (List.Sublist.append (List.Sublist.refl a) (List.sublist_cons_self x b))
 
-theorem remove_spec {cmp : E → E → Int} {rank : E → Int} (hc : Lawful cmp rank) (t : STree E) (x : E)
-    (hb : Bal t) (ho : Ordered rank t) :
-    ∃ t', remove cmp t x = some t' ∧ Bal t' ∧ Ordered rank t' ∧
+theorem remove_spec {cmp : E → E → Int} (hc : Lawful cmp) (t : STree E) (x : E)
+    (hb : Bal t) (ho : Ordered t) :
+    ∃ t', remove cmp t x = some t' ∧ Bal t' ∧ Ordered t' ∧
       (∀ p, p ∈ abs t' ↔ (p ∈ abs t ∧ p ≠ x)) ∧
       height t - 1 ≤ height t' ∧ height t' ≤ height t := by
   induction t with
@@ -566,25 +567,25 @@ theorem remove_spec {cmp : E → E → Int} {rank : E → Int} (hc : Lawful cmp 
     · have : x = v := heq.1 c0
       subst this
       obtain ⟨t', e, b1, a1, g1, g2⟩ := internalMerge_spec l r bll brr d1 d2
-      refine ⟨t', by simp [c0, e], b1, ?_, ?_, by simp only [height_node]; omega, by simp only [height_node]; omega⟩
+      refine ⟨t', by simp [c0, e], b1, ?_, ?_, by simp only [height_node]; oo, by simp only [height_node]; oo⟩
       · simp only [Ordered, a1]; exact pairwise_drop_mid ho
       · intro p
         rw [a1]
         simp only [abs, List.mem_append, List.mem_cons]
         constructor
         · rintro (h1 | h1)
-          · exact ⟨Or.inl h1, fun e => by have := bl p h1; rw [e] at this; omega⟩
-          · exact ⟨Or.inr (Or.inr h1), fun e => by have := br p h1; rw [e] at this; omega⟩
+          · exact ⟨Or.inl h1, fun e => by have := bl p h1; rw [e] at this; oo⟩
+          · exact ⟨Or.inr (Or.inr h1), fun e => by have := br p h1; rw [e] at this; oo⟩
         · rintro ⟨h1 | h1 | h1, ne⟩
           · exact Or.inl h1
           · exact absurd h1 ne
           · exact Or.inr h1
     · by_cases c1 : cmp x v < 0
       · obtain ⟨ll, e, b1, o1, m1, g1, g2⟩ := ihl bll ol
-        obtain ⟨t', e2, b2, a2, g3, g4, g5⟩ := balanced_spec ll r v b1 brr (by omega) (by omega)
-        have ord : (abs ll ++ v :: abs r).Pairwise (fun a b => rank a < rank b) :=
+        obtain ⟨t', e2, b2, a2, g3, g4, g5⟩ := balanced_spec ll r v b1 brr (by oo) (by oo)
+        have ord : (abs ll ++ v :: abs r).Pairwise (fun a b => a < b) :=
           ordered_of_parts o1 or (fun p hp => bl p ((m1 p).1 hp).1) br
-        have nk : v ≠ x := by intro e; subst e; simp at hlt; omega
+        have nk : v ≠ x := by intro e; subst e; grind
         have lt := hlt.1 c1
         have mem : ∀ p, p ∈ abs ll ++ v :: abs r ↔ (p ∈ abs l ++ v :: abs r ∧ p ≠ x) := by
           intro p
@@ -594,22 +595,22 @@ theorem remove_spec {cmp : E → E → Int} {rank : E → Int} (hc : Lawful cmp 
           · rintro (h1 | h1 | h1)
             · exact ⟨Or.inl (this.1 h1).1, (this.1 h1).2⟩
             · subst h1; exact ⟨Or.inr (Or.inl rfl), nk⟩
-            · exact ⟨Or.inr (Or.inr h1), fun e => by have := br p h1; rw [e] at this; omega⟩
+            · exact ⟨Or.inr (Or.inr h1), fun e => by have := br p h1; rw [e] at this; oo⟩
           · rintro ⟨h1 | h1 | h1, ne⟩
             · exact Or.inl (this.2 ⟨h1, ne⟩)
             · exact Or.inr (Or.inl h1)
             · exact Or.inr (Or.inr h1)
         by_cases same : l = ll
         · subst same
-          exact ⟨.node h v l r, by simp [c0, c1, e], hb, ho, by simpa [abs] using mem, by simp only [height_node]; omega, by hfin⟩
+          exact ⟨.node h v l r, by simp [c0, c1, e], hb, ho, by simpa [abs] using mem, by simp only [height_node]; oo, by hfin⟩
         · refine ⟨t', by simp [c0, c1, e, same, e2], b2, by simpa [Ordered, a2] using ord,
-            by simpa [a2, abs] using mem, ?_, ?_⟩ <;> simp only [height_node] <;> omega
-      · have c2 : cmp x v > 0 := by omega
+            by simpa [a2, abs] using mem, ?_, ?_⟩ <;> simp only [height_node] <;> oo
+      · have c2 : cmp x v > 0 := by oo
         obtain ⟨rr, e, b1, o1, m1, g1, g2⟩ := ihr brr or
-        obtain ⟨t', e2, b2, a2, g3, g4, g5⟩ := balanced_spec l rr v bll b1 (by omega) (by omega)
-        have ord : (abs l ++ v :: abs rr).Pairwise (fun a b => rank a < rank b) :=
+        obtain ⟨t', e2, b2, a2, g3, g4, g5⟩ := balanced_spec l rr v bll b1 (by oo) (by oo)
+        have ord : (abs l ++ v :: abs rr).Pairwise (fun a b => a < b) :=
           ordered_of_parts ol o1 bl (fun p hp => br p ((m1 p).1 hp).1)
-        have nk : v ≠ x := by intro e; subst e; simp at hgt; omega
+        have nk : v ≠ x := by intro e; subst e; grind
         have gt := hgt.1 c2
         have mem : ∀ p, p ∈ abs l ++ v :: abs rr ↔ (p ∈ abs l ++ v :: abs r ∧ p ≠ x) := by
           intro p
@@ -617,7 +618,7 @@ theorem remove_spec {cmp : E → E → Int} {rank : E → Int} (hc : Lawful cmp 
           simp only [List.mem_append, List.mem_cons]
           constructor
           · rintro (h1 | h1 | h1)
-            · exact ⟨Or.inl h1, fun e => by have := bl p h1; rw [e] at this; omega⟩
+            · exact ⟨Or.inl h1, fun e => by have := bl p h1; rw [e] at this; oo⟩
             · subst h1; exact ⟨Or.inr (Or.inl rfl), nk⟩
             · exact ⟨Or.inr (Or.inr (this.1 h1).1), (this.1 h1).2⟩
           · rintro ⟨h1 | h1 | h1, ne⟩
@@ -626,18 +627,18 @@ theorem remove_spec {cmp : E → E → Int} {rank : E → Int} (hc : Lawful cmp 
             · exact Or.inr (Or.inr (this.2 ⟨h1, ne⟩))
         by_cases same : r = rr
         · subst same
-          exact ⟨.node h v l r, by simp [c0, c1, e], hb, ho, by simpa [abs] using mem, by simp only [height_node]; omega, by hfin⟩
+          exact ⟨.node h v l r, by simp [c0, c1, e], hb, ho, by simpa [abs] using mem, by simp only [height_node]; oo, by hfin⟩
         · refine ⟨t', by simp [c0, c1, e, same, e2], b2, by simpa [Ordered, a2] using ord,
-            by simpa [a2, abs] using mem, ?_, ?_⟩ <;> simp only [height_node] <;> omega
+            by simpa [a2, abs] using mem, ?_, ?_⟩ <;> simp only [height_node] <;> oo
 
 /-- the element found by `split`, as a list -/
 def midList (key : E) (pres : Bool) : List E := if pres then [key] else []
 
-theorem split_spec {cmp : E → E → Int} {rank : E → Int} (hc : Lawful cmp rank) (t : STree E) (key : E)
-    (hb : Bal t) (ho : Ordered rank t) :
+theorem split_spec {cmp : E → E → Int} (hc : Lawful cmp) (t : STree E) (key : E)
+    (hb : Bal t) (ho : Ordered t) :
     ∃ l pres r, split cmp t key = some (l, pres, r) ∧ Bal l ∧ Bal r ∧
       abs t = abs l ++ midList key pres ++ abs r ∧
-      (∀ p ∈ abs l, rank p < rank key) ∧ (∀ p ∈ abs r, rank key < rank p) := by
+      (∀ p ∈ abs l, p < key) ∧ (∀ p ∈ abs r, key < p) := by
   induction t with
   | empty => exact ⟨.empty, false, .empty, rfl, hb, hb, by simp [abs, midList], by simp [abs], by simp [abs]⟩
   | leaf v =>
@@ -652,7 +653,7 @@ theorem split_spec {cmp : E → E → Int} {rank : E → Int} (hc : Lawful cmp r
       · exact ⟨.empty, false, .leaf v, by simp [c0, c1], by simp [Bal], hb, by simp [abs, midList],
           by simp [abs], by simp [abs]; exact hlt.1 c1⟩
       · exact ⟨.leaf v, false, .empty, by simp [c0, c1], hb, by simp [Bal], by simp [abs, midList],
-          by simp [abs]; exact hgt.1 (by omega), by simp [abs]⟩
+          by simp [abs]; exact hgt.1 (by oo), by simp [abs]⟩
   | node h v l r ihl ihr =>
     have hlt := hc.lt key v; have heq := hc.eq key v; have hgt := hc.gt key v
     obtain ⟨ol, or, bl, br⟩ := ordered_node ho
@@ -673,8 +674,8 @@ theorem split_spec {cmp : E → E → Int} {rank : E → Int} (hc : Lawful cmp r
         rcases hp with h1 | h1 | h1
         · exact g2 p h1
         · subst h1; exact lt
-        · have := br p h1; omega
-      · have gt := hgt.1 (by omega)
+        · have := br p h1; oo
+      · have gt := hgt.1 (by oo)
         obtain ⟨lr, pres, rr, e, b1, b2, a1, g1, g2⟩ := ihr brr or
         obtain ⟨t2, e2, b3, a3, _⟩ := join_spec l lr v bll b1
         refine ⟨t2, pres, rr, by simp [c0, c1, e, e2], b3, b2, by simp [abs, a1, a3], ?_, g2⟩
@@ -682,7 +683,7 @@ theorem split_spec {cmp : E → E → Int} {rank : E → Int} (hc : Lawful cmp r
         rw [a3] at hp
         simp only [List.mem_append, List.mem_cons] at hp
         rcases hp with h1 | h1 | h1
-        · have := bl p h1; omega
+        · have := bl p h1; oo
         · subst h1; exact gt
         · exact g1 p h1
 
@@ -735,48 +736,48 @@ theorem partition_spec (f : E → Bool) (t : STree E) (hb : Bal t) :
       exact ⟨x, y, by simp [c, e3, e4], b3, b4, by simp [a3, abs, a1, a2, c], by simp [a4, abs, a1', a2', c]⟩
 
 /-- representation invariant -/
-def Inv (rank : E → Int) (t : STree E) : Prop := Bal t ∧ Ordered rank t
+def Inv (t : STree E) : Prop := Bal t ∧ Ordered t
 
-theorem split_inv {cmp : E → E → Int} {rank : E → Int} (hc : Lawful cmp rank) (t : STree E) (key : E)
-    (hi : Inv rank t) :
-    ∃ l pres r, split cmp t key = some (l, pres, r) ∧ Inv rank l ∧ Inv rank r ∧
+theorem split_inv {cmp : E → E → Int} (hc : Lawful cmp) (t : STree E) (key : E)
+    (hi : Inv t) :
+    ∃ l pres r, split cmp t key = some (l, pres, r) ∧ Inv l ∧ Inv r ∧
       (∀ p, p ∈ abs t ↔ (p ∈ abs l ∨ (pres = true ∧ p = key) ∨ p ∈ abs r)) ∧
-      (∀ p ∈ abs l, rank p < rank key) ∧ (∀ p ∈ abs r, rank key < rank p) := by
+      (∀ p ∈ abs l, p < key) ∧ (∀ p ∈ abs r, key < p) := by
   obtain ⟨l, pres, r, e, b1, b2, a, g1, g2⟩ := split_spec hc t key hi.1 hi.2
   have ho := hi.2
   simp only [Ordered, a] at ho
-  have o1 : Ordered rank l := (List.pairwise_append.1 (List.pairwise_append.1 ho).1).1
-  have o2 : Ordered rank r := (List.pairwise_append.1 ho).2.1
+  have o1 : Ordered l := (List.pairwise_append.1 (List.pairwise_append.1 ho).1).1
+  have o2 : Ordered r := (List.pairwise_append.1 ho).2.1
   refine ⟨l, pres, r, e, ⟨b1, o1⟩, ⟨b2, o2⟩, ?_, g1, g2⟩
   intro p
   rw [a]
   cases pres <;> simp [midList]
 
-theorem inv_join {rank : E → Int} (a c : STree E) (v : E) (ha : Inv rank a) (hc' : Inv rank c)
-    (h1 : ∀ p ∈ abs a, rank p < rank v) (h2 : ∀ p ∈ abs c, rank v < rank p) :
-    ∃ t, join a v c = some t ∧ Inv rank t ∧ ∀ p, p ∈ abs t ↔ (p ∈ abs a ∨ p = v ∨ p ∈ abs c) := by
+theorem inv_join (a c : STree E) (v : E) (ha : Inv a) (hc' : Inv c)
+    (h1 : ∀ p ∈ abs a, p < v) (h2 : ∀ p ∈ abs c, v < p) :
+    ∃ t, join a v c = some t ∧ Inv t ∧ ∀ p, p ∈ abs t ↔ (p ∈ abs a ∨ p = v ∨ p ∈ abs c) := by
   obtain ⟨t, e, b, ab, _⟩ := join_spec a c v ha.1 hc'.1
   refine ⟨t, e, ⟨b, ?_⟩, ?_⟩
   · simp only [Ordered, ab]; exact ordered_of_parts ha.2 hc'.2 h1 h2
   · intro p; rw [ab]; simp
 
-theorem inv_concat {rank : E → Int} (a c : STree E) (ha : Inv rank a) (hc' : Inv rank c)
-    (h : ∀ p ∈ abs a, ∀ q ∈ abs c, rank p < rank q) :
-    ∃ t, concat a c = some t ∧ Inv rank t ∧ ∀ p, p ∈ abs t ↔ (p ∈ abs a ∨ p ∈ abs c) := by
+theorem inv_concat (a c : STree E) (ha : Inv a) (hc' : Inv c)
+    (h : ∀ p ∈ abs a, ∀ q ∈ abs c, p < q) :
+    ∃ t, concat a c = some t ∧ Inv t ∧ ∀ p, p ∈ abs t ↔ (p ∈ abs a ∨ p ∈ abs c) := by
   obtain ⟨t, e, b, ab⟩ := concat_spec a c ha.1 hc'.1
   refine ⟨t, e, ⟨b, ?_⟩, ?_⟩
   · simp only [Ordered, ab, List.pairwise_append]; exact ⟨ha.2, hc'.2, h⟩
   · intro p; rw [ab]; simp
 
-theorem inv_node {rank : E → Int} {h : Int} {v : E} {l r : STree E} (hi : Inv rank (.node h v l r)) :
-    Inv rank l ∧ Inv rank r ∧ (∀ p ∈ abs l, rank p < rank v) ∧ (∀ p ∈ abs r, rank v < rank p) := by
+theorem inv_node {h : Int} {v : E} {l r : STree E} (hi : Inv (.node h v l r)) :
+    Inv l ∧ Inv r ∧ (∀ p ∈ abs l, p < v) ∧ (∀ p ∈ abs r, v < p) := by
   obtain ⟨ol, or, bl, br⟩ := ordered_node hi.2
   obtain ⟨bll, brr, _⟩ := bal_node hi.1
   exact ⟨⟨bll, ol⟩, ⟨brr, or⟩, bl, br⟩
 
-theorem intersection_spec {cmp : E → E → Int} {rank : E → Int} (hc : Lawful cmp rank) (a : STree E) :
-    ∀ (b : STree E), Inv rank a → Inv rank b →
-    ∃ t, intersection cmp a b = some t ∧ Inv rank t ∧ ∀ p, p ∈ abs t ↔ (p ∈ abs a ∧ p ∈ abs b) := by
+theorem intersection_spec {cmp : E → E → Int} (hc : Lawful cmp) (a : STree E) :
+    ∀ (b : STree E), Inv a → Inv b →
+    ∃ t, intersection cmp a b = some t ∧ Inv t ∧ ∀ p, p ∈ abs t ↔ (p ∈ abs a ∧ p ∈ abs b) := by
   induction a with
   | empty => intro b _ _; exact ⟨.empty, rfl, ⟨by simp [Bal], by simp [Ordered, abs]⟩, by simp [abs]⟩
   | leaf v =>
@@ -801,8 +802,8 @@ theorem intersection_spec {cmp : E → E → Int} {rank : E → Int} (hc : Lawfu
     obtain ⟨l2, pres, r2, es, i1, i2, mb, g1, g2⟩ := split_inv hc b v hb
     obtain ⟨x, ex, ix, mx⟩ := ihl l2 il i1
     obtain ⟨y, ey, iy, my⟩ := ihr r2 ir i2
-    have hx : ∀ p ∈ abs x, rank p < rank v := fun p hp => bl p ((mx p).1 hp).1
-    have hy : ∀ p ∈ abs y, rank v < rank p := fun p hp => br p ((my p).1 hp).1
+    have hx : ∀ p ∈ abs x, p < v := fun p hp => bl p ((mx p).1 hp).1
+    have hy : ∀ p ∈ abs y, v < p := fun p hp => br p ((my p).1 hp).1
     have unf : intersection cmp (.node h v l r) b =
         (if pres then join x v y else concat x y) := by
       cases b <;> simp_all [intersection]
@@ -820,17 +821,17 @@ theorem intersection_spec {cmp : E → E → Int} {rank : E → Int} (hc : Lawfu
         · exact ⟨Or.inr (Or.inr h1), Or.inr (Or.inr h2)⟩
       · rintro ⟨h1 | h1 | h1, h2 | h2 | h2⟩
         · exact Or.inl ⟨h1, h2⟩
-        · have := bl p h1; rw [h2] at this; omega
-        · have := bl p h1; have := g2 p h2; omega
+        · have := bl p h1; rw [h2] at this; oo
+        · have := bl p h1; have := g2 p h2; oo
         · exact Or.inr (Or.inl h1)
         · exact Or.inr (Or.inl h1)
         · exact Or.inr (Or.inl h1)
-        · have := br p h1; have := g1 p h2; omega
-        · have := br p h1; rw [h2] at this; omega
+        · have := br p h1; have := g1 p h2; oo
+        · have := br p h1; rw [h2] at this; oo
         · exact Or.inr (Or.inr ⟨h1, h2⟩)
     | false =>
       obtain ⟨t, et, it, mt⟩ := inv_concat x y ix iy
-        (fun p hp q hq => by have := hx p hp; have := hy q hq; omega)
+        (fun p hp q hq => by have := hx p hp; have := hy q hq; oo)
       refine ⟨t, by rw [unf]; simpa using et, it, ?_⟩
       intro p
       rw [mt, mx, my, mb]
@@ -841,15 +842,15 @@ theorem intersection_spec {cmp : E → E → Int} {rank : E → Int} (hc : Lawfu
         · exact ⟨Or.inr (Or.inr h1), Or.inr h2⟩
       · rintro ⟨h1 | h1 | h1, h2 | h2⟩
         · exact Or.inl ⟨h1, h2⟩
-        · have := bl p h1; have := g2 p h2; omega
-        · subst h1; have := g1 p h2; omega
-        · subst h1; have := g2 p h2; omega
-        · have := br p h1; have := g1 p h2; omega
+        · have := bl p h1; have := g2 p h2; oo
+        · subst h1; have := g1 p h2; oo
+        · subst h1; have := g2 p h2; oo
+        · have := br p h1; have := g1 p h2; oo
         · exact Or.inr ⟨h1, h2⟩
 
-theorem diff_spec {cmp : E → E → Int} {rank : E → Int} (hc : Lawful cmp rank) (a : STree E) :
-    ∀ (b : STree E), Inv rank a → Inv rank b →
-    ∃ t, diff cmp a b = some t ∧ Inv rank t ∧ ∀ p, p ∈ abs t ↔ (p ∈ abs a ∧ p ∉ abs b) := by
+theorem diff_spec {cmp : E → E → Int} (hc : Lawful cmp) (a : STree E) :
+    ∀ (b : STree E), Inv a → Inv b →
+    ∃ t, diff cmp a b = some t ∧ Inv t ∧ ∀ p, p ∈ abs t ↔ (p ∈ abs a ∧ p ∉ abs b) := by
   induction a with
   | empty => intro b _ _; exact ⟨.empty, rfl, ⟨by simp [Bal], by simp [Ordered, abs]⟩, by simp [abs]⟩
   | leaf v =>
@@ -874,8 +875,8 @@ theorem diff_spec {cmp : E → E → Int} {rank : E → Int} (hc : Lawful cmp ra
     obtain ⟨l2, pres, r2, es, i1, i2, mb, g1, g2⟩ := split_inv hc b v hb
     obtain ⟨x, ex, ix, mx⟩ := ihl l2 il i1
     obtain ⟨y, ey, iy, my⟩ := ihr r2 ir i2
-    have hx : ∀ p ∈ abs x, rank p < rank v := fun p hp => bl p ((mx p).1 hp).1
-    have hy : ∀ p ∈ abs y, rank v < rank p := fun p hp => br p ((my p).1 hp).1
+    have hx : ∀ p ∈ abs x, p < v := fun p hp => bl p ((mx p).1 hp).1
+    have hy : ∀ p ∈ abs y, v < p := fun p hp => br p ((my p).1 hp).1
     have unf : diff cmp (.node h v l r) b = (if pres then concat x y else join x v y) := by
       cases b <;> simp_all [diff]
     cases pres with
@@ -887,60 +888,60 @@ theorem diff_spec {cmp : E → E → Int} {rank : E → Int} (hc : Lawful cmp ra
       simp only [abs, List.mem_append, List.mem_cons, Bool.false_eq_true, false_and, false_or, not_or]
       constructor
       · rintro (⟨h1, h2⟩ | h1 | ⟨h1, h2⟩)
-        · exact ⟨Or.inl h1, h2, fun h3 => by have := bl p h1; have := g2 p h3; omega⟩
+        · exact ⟨Or.inl h1, h2, fun h3 => by have := bl p h1; have := g2 p h3; oo⟩
         · subst h1
-          exact ⟨Or.inr (Or.inl rfl), fun h3 => by have := g1 p h3; omega, fun h3 => by have := g2 p h3; omega⟩
-        · exact ⟨Or.inr (Or.inr h1), fun h3 => by have := br p h1; have := g1 p h3; omega, h2⟩
+          exact ⟨Or.inr (Or.inl rfl), fun h3 => by have := g1 p h3; oo, fun h3 => by have := g2 p h3; oo⟩
+        · exact ⟨Or.inr (Or.inr h1), fun h3 => by have := br p h1; have := g1 p h3; oo, h2⟩
       · rintro ⟨h1 | h1 | h1, h2, h3⟩
         · exact Or.inl ⟨h1, h2⟩
         · exact Or.inr (Or.inl h1)
         · exact Or.inr (Or.inr ⟨h1, h3⟩)
     | true =>
       obtain ⟨t, et, it, mt⟩ := inv_concat x y ix iy
-        (fun p hp q hq => by have := hx p hp; have := hy q hq; omega)
+        (fun p hp q hq => by have := hx p hp; have := hy q hq; oo)
       refine ⟨t, by rw [unf]; simpa using et, it, ?_⟩
       intro p
       rw [mt, mx, my, mb]
       simp only [abs, List.mem_append, List.mem_cons, true_and, not_or]
       constructor
       · rintro (⟨h1, h2⟩ | ⟨h1, h2⟩)
-        · exact ⟨Or.inl h1, h2, fun h3 => by have := bl p h1; rw [h3] at this; omega,
-            fun h3 => by have := bl p h1; have := g2 p h3; omega⟩
-        · exact ⟨Or.inr (Or.inr h1), fun h3 => by have := br p h1; have := g1 p h3; omega,
-            fun h3 => by have := br p h1; rw [h3] at this; omega, h2⟩
+        · exact ⟨Or.inl h1, h2, fun h3 => by have := bl p h1; rw [h3] at this; oo,
+            fun h3 => by have := bl p h1; have := g2 p h3; oo⟩
+        · exact ⟨Or.inr (Or.inr h1), fun h3 => by have := br p h1; have := g1 p h3; oo,
+            fun h3 => by have := br p h1; rw [h3] at this; oo, h2⟩
       · rintro ⟨h1 | h1 | h1, h2, h3, h4⟩
         · exact Or.inl ⟨h1, h2⟩
         · exact absurd h1 h3
         · exact Or.inr ⟨h1, h4⟩
 
-theorem split_len {cmp : E → E → Int} {rank : E → Int} (hc : Lawful cmp rank) (t : STree E) (key : E)
-    (hi : Inv rank t) :
-    ∃ l pres r, split cmp t key = some (l, pres, r) ∧ Inv rank l ∧ Inv rank r ∧
+theorem split_len {cmp : E → E → Int} (hc : Lawful cmp) (t : STree E) (key : E)
+    (hi : Inv t) :
+    ∃ l pres r, split cmp t key = some (l, pres, r) ∧ Inv l ∧ Inv r ∧
       (∀ p, p ∈ abs t ↔ (p ∈ abs l ∨ (pres = true ∧ p = key) ∨ p ∈ abs r)) ∧
-      (∀ p ∈ abs l, rank p < rank key) ∧ (∀ p ∈ abs r, rank key < rank p) ∧
+      (∀ p ∈ abs l, p < key) ∧ (∀ p ∈ abs r, key < p) ∧
       (abs l).length ≤ (abs t).length ∧ (abs r).length ≤ (abs t).length := by
   obtain ⟨l, pres, r, e, i1, i2, m, g1, g2⟩ := split_inv hc t key hi
   obtain ⟨l', pres', r', e', _, _, a, _, _⟩ := split_spec hc t key hi.1 hi.2
   rw [e] at e'
   simp only [Option.some.injEq, Prod.mk.injEq] at e'
   obtain ⟨rfl, rfl, rfl⟩ := e'
-  refine ⟨l, pres, r, e, i1, i2, m, g1, g2, ?_, ?_⟩ <;> (rw [a]; simp <;> omega)
+  refine ⟨l, pres, r, e, i1, i2, m, g1, g2, ?_, ?_⟩ <;> (rw [a]; simp <;> oo)
 
-theorem inv_insert {cmp : E → E → Int} {rank : E → Int} (hc : Lawful cmp rank) (t : STree E) (x : E)
-    (hi : Inv rank t) :
-    ∃ t', insert cmp t x = some t' ∧ Inv rank t' ∧ ∀ p, p ∈ abs t' ↔ (p = x ∨ p ∈ abs t) := by
+theorem inv_insert {cmp : E → E → Int} (hc : Lawful cmp) (t : STree E) (x : E)
+    (hi : Inv t) :
+    ∃ t', insert cmp t x = some t' ∧ Inv t' ∧ ∀ p, p ∈ abs t' ↔ (p = x ∨ p ∈ abs t) := by
   obtain ⟨t', e, b, o, m, _⟩ := insert_spec hc t x hi.1 hi.2
   exact ⟨t', e, ⟨b, o⟩, m⟩
 
 /-- **`union`, total**: with fuel above the sum of the sizes the fuelled `union` returns a result
 (never runs out of fuel, never panics) and that result is the set union. -/
-theorem union_spec {cmp : E → E → Int} {rank : E → Int} (hc : Lawful cmp rank) :
-    ∀ (fuel : Nat) (a b : STree E), Inv rank a → Inv rank b →
+theorem union_spec {cmp : E → E → Int} (hc : Lawful cmp) :
+    ∀ (fuel : Nat) (a b : STree E), Inv a → Inv b →
       (abs a).length + (abs b).length < fuel →
-      ∃ t, union cmp fuel a b = some (some t) ∧ Inv rank t ∧ ∀ p, p ∈ abs t ↔ (p ∈ abs a ∨ p ∈ abs b) := by
+      ∃ t, union cmp fuel a b = some (some t) ∧ Inv t ∧ ∀ p, p ∈ abs t ↔ (p ∈ abs a ∨ p ∈ abs b) := by
   intro fuel
   induction fuel with
-  | zero => intro a b _ _ h; omega
+  | zero => intro a b _ _ h; oo
   | succ fuel ih =>
     intro a b ha hb hf
     cases a with
@@ -964,18 +965,18 @@ theorem union_spec {cmp : E → E → Int} {rank : E → Int} (hc : Lawful cmp r
         obtain ⟨il1, ir1, bl1, br1⟩ := inv_node ha
         obtain ⟨il2, ir2, bl2, br2⟩ := inv_node hb
         have la : (abs (STree.node h1 v1 l1 r1)).length = (abs l1).length + 1 + (abs r1).length := by
-          simp [abs]; omega
+          simp [abs]; oo
         have lb : (abs (STree.node h2 v2 l2 r2)).length = (abs l2).length + 1 + (abs r2).length := by
-          simp [abs]; omega
+          simp [abs]; oo
         by_cases c : h1 ≥ h2
         · by_cases c2 : h2 = 1
           · obtain ⟨t, e, i, m⟩ := inv_insert hc (.node h1 v1 l1 r1) v2 ha
             have := hb.1
             simp only [Bal] at this
-            omega
+            oo
           · obtain ⟨ll2, pres, rr2, es, i1, i2, mb, g1, g2, n1, n2⟩ := split_len hc (.node h2 v2 l2 r2) v1 hb
-            obtain ⟨x, ex, ix, mx⟩ := ih l1 ll2 il1 i1 (by omega)
-            obtain ⟨y, ey, iy, my⟩ := ih r1 rr2 ir1 i2 (by omega)
+            obtain ⟨x, ex, ix, mx⟩ := ih l1 ll2 il1 i1 (by oo)
+            obtain ⟨y, ey, iy, my⟩ := ih r1 rr2 ir1 i2 (by oo)
             obtain ⟨t, et, it, mt⟩ := inv_join x y v1 ix iy
               (fun p hp => by rcases (mx p).1 hp with h | h; exact bl1 p h; exact g1 p h)
               (fun p hp => by rcases (my p).1 hp with h | h; exact br1 p h; exact g2 p h)
@@ -1000,10 +1001,10 @@ theorem union_spec {cmp : E → E → Int} {rank : E → Int} (hc : Lawful cmp r
         · by_cases c2 : h1 = 1
           · have := ha.1
             simp only [Bal] at this
-            omega
+            oo
           · obtain ⟨ll1, pres, rr1, es, i1, i2, ma, g1, g2, n1, n2⟩ := split_len hc (.node h1 v1 l1 r1) v2 ha
-            obtain ⟨x, ex, ix, mx⟩ := ih ll1 l2 i1 il2 (by omega)
-            obtain ⟨y, ey, iy, my⟩ := ih rr1 r2 i2 ir2 (by omega)
+            obtain ⟨x, ex, ix, mx⟩ := ih ll1 l2 i1 il2 (by oo)
+            obtain ⟨y, ey, iy, my⟩ := ih rr1 r2 i2 ir2 (by oo)
             obtain ⟨t, et, it, mt⟩ := inv_join x y v2 ix iy
               (fun p hp => by rcases (mx p).1 hp with h | h; exact g1 p h; exact bl2 p h)
               (fun p hp => by rcases (my p).1 hp with h | h; exact g2 p h; exact br2 p h)
@@ -1026,9 +1027,9 @@ theorem union_spec {cmp : E → E → Int} {rank : E → Int} (hc : Lawful cmp r
               · exact Or.inr (Or.inl h)
               · exact Or.inr (Or.inr (Or.inr h))
 
-theorem fromList_spec {cmp : E → E → Int} {rank : E → Int} (hc : Lawful cmp rank) (xs : List E) :
-    ∀ (acc : STree E), Inv rank acc →
-    ∃ t, fromList cmp xs acc = some t ∧ Inv rank t ∧ ∀ p, p ∈ abs t ↔ (p ∈ xs ∨ p ∈ abs acc) := by
+theorem fromList_spec {cmp : E → E → Int} (hc : Lawful cmp) (xs : List E) :
+    ∀ (acc : STree E), Inv acc →
+    ∃ t, fromList cmp xs acc = some t ∧ Inv t ∧ ∀ p, p ∈ abs t ↔ (p ∈ xs ∨ p ∈ abs acc) := by
   induction xs with
   | nil => intro acc hi; exact ⟨acc, rfl, hi, by simp⟩
   | cons x xs ih =>
@@ -1097,7 +1098,7 @@ theorem equal_refines (cmp : E → E → Int) (f : E → E → Bool) (a b : STre
     equal cmp f a b = eqList cmp f (abs a) (abs b) := by
   simp [equal, equalHelper_refines, Enum.toList_cons, Enum.toList]
 
-theorem eqList_iff {cmp : E → E → Int} {rank : E → Int} (hc : Lawful cmp rank) (f : E → E → Bool)
+theorem eqList_iff {cmp : E → E → Int} (hc : Lawful cmp) (f : E → E → Bool)
     (hf : ∀ x, f x x = true) (xs ys : List E) : eqList cmp f xs ys = true ↔ xs = ys := by
   induction xs generalizing ys with
   | nil => cases ys <;> simp [eqList]
@@ -1110,8 +1111,8 @@ theorem eqList_iff {cmp : E → E → Int} {rank : E → Int} (hc : Lawful cmp r
       · rintro ⟨⟨h1, _⟩, h3⟩; exact ⟨h1, h3⟩
       · rintro ⟨h1, h3⟩; subst h1; exact ⟨⟨rfl, hf x⟩, h3⟩
 
-theorem disjoint_refines {cmp : E → E → Int} {rank : E → Int} (hc : Lawful cmp rank) (a b : STree E)
-    (ha : Inv rank a) (hb : Inv rank b) :
+theorem disjoint_refines {cmp : E → E → Int} (hc : Lawful cmp) (a b : STree E)
+    (ha : Inv a) (hb : Inv b) :
     ∃ r, disjoint cmp a b = some r ∧ (r = true ↔ ∀ x, ¬ (x ∈ abs a ∧ x ∈ abs b)) := by
   obtain ⟨t, e, i, m⟩ := intersection_spec hc a b ha hb
   refine ⟨isEmpty t, by simp [disjoint, e], ?_⟩
@@ -1124,8 +1125,8 @@ theorem disjoint_refines {cmp : E → E → Int} {rank : E → Int} (hc : Lawful
     | cons y ys => exact absurd ((m y).1 (by rw [hx]; simp)) (h y)
 
 /-- two strictly ascending lists with the same members are equal -/
-theorem sorted_ext {rank : E → Int} (hinj : ∀ a b, rank a = rank b → a = b) :
-    ∀ (xs ys : List E), xs.Pairwise (fun a b => rank a < rank b) → ys.Pairwise (fun a b => rank a < rank b) →
+theorem sorted_ext :
+    ∀ (xs ys : List E), xs.Pairwise (fun a b => a < b) → ys.Pairwise (fun a b => a < b) →
       (∀ x, x ∈ xs ↔ x ∈ ys) → xs = ys := by
   intro xs
   induction xs with
@@ -1148,7 +1149,7 @@ theorem sorted_ext {rank : E → Int} (hinj : ∀ a b, rank a = rank b → a = b
         · exact h1
         · rcases h2 with h2 | h2
           · exact h2.symm
-          · have := hy.1 x h1; have := hx.1 y h2; omega
+          · have := hy.1 x h1; have := hx.1 y h2; oo
       subst exy
       congr 1
       apply ih ys hx.2 hy.2
@@ -1158,11 +1159,11 @@ theorem sorted_ext {rank : E → Int} (hinj : ∀ a b, rank a = rank b → a = b
       constructor
       · intro hz1
         rcases hz.1 (Or.inr hz1) with h1 | h1
-        · have := hx.1 z hz1; rw [h1] at this; omega
+        · have := hx.1 z hz1; rw [h1] at this; oo
         · exact h1
       · intro hz1
         rcases hz.2 (Or.inr hz1) with h1 | h1
-        · have := hy.1 z hz1; rw [h1] at this; omega
+        · have := hy.1 z hz1; rw [h1] at this; oo
         · exact h1
 
 /-- shape facts `subset` relies on (weaker than `Bal`; preserved by the `unsafeNode` calls inside
@@ -1178,14 +1179,14 @@ theorem shape_of_bal (t : STree E) (hb : Bal t) : Shape t := by
   | leaf v => trivial
   | node h v l r ihl ihr =>
     obtain ⟨bl, br, hh, d1, d2, nl, nr⟩ := bal_node hb
-    have hge : h ≥ 2 := by simp only [Bal] at hb; omega
+    have hge : h ≥ 2 := by simp only [Bal] at hb; oo
     refine ⟨ihl bl, ihr br, hge, ?_⟩
     by_cases c : height l ≥ 1
     · left; intro e; have := height_nonneg l bl
       cases l <;> simp_all [abs]
     · right; intro e
       cases r <;> simp_all [abs]
-      omega
+      oo
 
 theorem shape_unsafeNode_left (l : STree E) (v : E) (hs : Shape l) :
     Shape (unsafeNode l v .empty) ∧ abs (unsafeNode l v .empty) = abs l ++ [v] := by
@@ -1195,7 +1196,7 @@ theorem shape_unsafeNode_left (l : STree E) (v : E) (hs : Shape l) :
   | node h a l' r' =>
     simp only [Shape] at hs
     simp [unsafeNode, Shape, abs, hs]
-    omega
+    oo
 
 theorem shape_unsafeNode_right (r : STree E) (v : E) (hs : Shape r) :
     Shape (unsafeNode .empty v r) ∧ abs (unsafeNode .empty v r) = v :: abs r := by
@@ -1205,16 +1206,16 @@ theorem shape_unsafeNode_right (r : STree E) (v : E) (hs : Shape r) :
   | node h a l' r' =>
     simp only [Shape] at hs
     simp [unsafeNode, Shape, abs, hs]
-    omega
+    oo
 
 /-- **`subset`, total**: fuel above the sum of the sizes suffices and the answer is set inclusion. -/
-theorem subset_spec {cmp : E → E → Int} {rank : E → Int} (hc : Lawful cmp rank) :
-    ∀ (fuel : Nat) (a b : STree E), Shape a → Ordered rank a → Shape b → Ordered rank b →
+theorem subset_spec {cmp : E → E → Int} (hc : Lawful cmp) :
+    ∀ (fuel : Nat) (a b : STree E), Shape a → Ordered a → Shape b → Ordered b →
       (abs a).length + (abs b).length < fuel →
       ∃ r, subset cmp fuel a b = some r ∧ (r = true ↔ ∀ x ∈ abs a, x ∈ abs b) := by
   intro fuel
   induction fuel with
-  | zero => intro a b _ _ _ _ h; omega
+  | zero => intro a b _ _ _ _ h; oo
   | succ fuel ih =>
     intro a b sa oa sb ob hf
     cases a with
@@ -1230,12 +1231,12 @@ theorem subset_spec {cmp : E → E → Int} {rank : E → Int} (hc : Lawful cmp 
         simp only [Shape] at sb
         have hlt := hc.lt v1 v2; have heq := hc.eq v1 v2; have hgt := hc.gt v1 v2
         have lb : (abs (STree.node h2 v2 l2 r2)).length = (abs l2).length + 1 + (abs r2).length := by
-          simp [abs]; omega
+          simp [abs]; oo
         by_cases c0 : cmp v1 v2 = 0
         · exact ⟨true, by simp [subset, c0], by simp [abs, heq.1 c0]⟩
         · have ne : v1 ≠ v2 := fun e => c0 (heq.2 e)
           by_cases c1 : cmp v1 v2 < 0
-          · obtain ⟨r, e, hr⟩ := ih (.leaf v1) l2 sa oa sb.1 ol2 (by simp [abs] at hf ⊢; omega)
+          · obtain ⟨r, e, hr⟩ := ih (.leaf v1) l2 sa oa sb.1 ol2 (by simp [abs] at hf ⊢; oo)
             refine ⟨r, by simp [subset, c0, c1, e], ?_⟩
             rw [hr]
             have m1 : v1 ∈ abs (STree.leaf v1) := by simp [abs]
@@ -1252,8 +1253,8 @@ theorem subset_spec {cmp : E → E → Int} {rank : E → Int} (hc : Lawful cmp 
               rcases this with h | h | h
               · exact h
               · exact absurd h ne
-              · have := br2 x h; have := hlt.1 c1; omega
-          · obtain ⟨r, e, hr⟩ := ih (.leaf v1) r2 sa oa sb.2.1 or2 (by simp [abs] at hf ⊢; omega)
+              · have := br2 x h; have := hlt.1 c1; oo
+          · obtain ⟨r, e, hr⟩ := ih (.leaf v1) r2 sa oa sb.2.1 or2 (by simp [abs] at hf ⊢; oo)
             refine ⟨r, by simp [subset, c0, c1, e], ?_⟩
             rw [hr]
             have m1 : v1 ∈ abs (STree.leaf v1) := by simp [abs]
@@ -1268,7 +1269,7 @@ theorem subset_spec {cmp : E → E → Int} {rank : E → Int} (hc : Lawful cmp 
               have := h x m1
               simp only [abs, List.mem_append, List.mem_cons] at this
               rcases this with h | h | h
-              · have := bl2 x h; have := hgt.1 (by omega); omega
+              · have := bl2 x h; have := hgt.1 (by oo); oo
               · exact absurd h ne
               · exact h
     | node h1 v1 l1 r1 =>
@@ -1276,7 +1277,7 @@ theorem subset_spec {cmp : E → E → Int} {rank : E → Int} (hc : Lawful cmp 
       have sa' := sa
       simp only [Shape] at sa
       have la : (abs (STree.node h1 v1 l1 r1)).length = (abs l1).length + 1 + (abs r1).length := by
-        simp [abs]; omega
+        simp [abs]; oo
       cases b with
       | empty =>
         refine ⟨false, by simp [subset], ?_⟩
@@ -1284,7 +1285,7 @@ theorem subset_spec {cmp : E → E → Int} {rank : E → Int} (hc : Lawful cmp 
         intro h; have := h v1 (by simp [abs]); simp [abs] at this
       | leaf v2 =>
         refine ⟨false, ?_, ?_⟩
-        · have : h1 ≠ 1 := by omega
+        · have : h1 ≠ 1 := by oo
           simp [subset, this]
         · simp only [Bool.false_eq_true, false_iff, abs, List.mem_singleton]
           intro h
@@ -1295,26 +1296,26 @@ theorem subset_spec {cmp : E → E → Int} {rank : E → Int} (hc : Lawful cmp 
               have hy : y ∈ abs l1 := by rw [hl]; simp
               have e1 := h y (by simp [hy])
               have e2 := h v1 (by simp)
-              have := bl1 y hy; rw [e1, e2] at this; omega
+              have := bl1 y hy; rw [e1, e2] at this; oo
           · cases hl : abs r1 with
             | nil => exact hne hl
             | cons y ys =>
               have hy : y ∈ abs r1 := by rw [hl]; simp
               have e1 := h y (by simp [hy])
               have e2 := h v1 (by simp)
-              have := br1 y hy; rw [e1, e2] at this; omega
+              have := br1 y hy; rw [e1, e2] at this; oo
       | node h2 v2 l2 r2 =>
         obtain ⟨ol2, or2, bl2, br2⟩ := ordered_node ob
         have sb' := sb
         simp only [Shape] at sb
         have hlt := hc.lt v1 v2; have heq := hc.eq v1 v2; have hgt := hc.gt v1 v2
         have lb : (abs (STree.node h2 v2 l2 r2)).length = (abs l2).length + 1 + (abs r2).length := by
-          simp [abs]; omega
+          simp [abs]; oo
         by_cases c0 : cmp v1 v2 = 0
         · have e := heq.1 c0
           subst e
-          obtain ⟨ra, ea, hra⟩ := ih l1 l2 sa.1 ol1 sb.1 ol2 (by omega)
-          obtain ⟨rb, eb, hrb⟩ := ih r1 r2 sa.2.1 or1 sb.2.1 or2 (by omega)
+          obtain ⟨ra, ea, hra⟩ := ih l1 l2 sa.1 ol1 sb.1 ol2 (by oo)
+          obtain ⟨rb, eb, hrb⟩ := ih r1 r2 sa.2.1 or1 sb.2.1 or2 (by oo)
           refine ⟨ra && rb, by cases ra <;> simp [subset, c0, ea, eb], ?_⟩
           simp only [Bool.and_eq_true, hra, hrb, abs, List.mem_append, List.mem_cons]
           constructor
@@ -1327,22 +1328,22 @@ theorem subset_spec {cmp : E → E → Int} {rank : E → Int} (hc : Lawful cmp 
             · intro x hx
               rcases h x (Or.inl hx) with h' | h' | h'
               · exact h'
-              · have := bl1 x hx; rw [h'] at this; omega
-              · have := bl1 x hx; have := br2 x h'; omega
+              · have := bl1 x hx; rw [h'] at this; oo
+              · have := bl1 x hx; have := br2 x h'; oo
             · intro x hx
               rcases h x (Or.inr (Or.inr hx)) with h' | h' | h'
-              · have := br1 x hx; have := bl2 x h'; omega
-              · have := br1 x hx; rw [h'] at this; omega
+              · have := br1 x hx; have := bl2 x h'; oo
+              · have := br1 x hx; rw [h'] at this; oo
               · exact h'
         · have ne : v1 ≠ v2 := fun e => c0 (heq.2 e)
           by_cases c1 : cmp v1 v2 < 0
           · have lt := hlt.1 c1
             obtain ⟨su, au⟩ := shape_unsafeNode_left l1 v1 sa.1
-            have ou : Ordered rank (unsafeNode l1 v1 .empty) := by
+            have ou : Ordered (unsafeNode l1 v1 .empty) := by
               simp only [Ordered, au, List.pairwise_append]
               exact ⟨ol1, by simp, fun x hx y hy => by simp at hy; rw [hy]; exact bl1 x hx⟩
-            obtain ⟨ra, ea, hra⟩ := ih (unsafeNode l1 v1 .empty) l2 su ou sb.1 ol2 (by rw [au]; simp; omega)
-            obtain ⟨rb, eb, hrb⟩ := ih r1 (.node h2 v2 l2 r2) sa.2.1 or1 sb' ob (by omega)
+            obtain ⟨ra, ea, hra⟩ := ih (unsafeNode l1 v1 .empty) l2 su ou sb.1 ol2 (by rw [au]; simp; oo)
+            obtain ⟨rb, eb, hrb⟩ := ih r1 (.node h2 v2 l2 r2) sa.2.1 or1 sb' ob (by oo)
             refine ⟨ra && rb, by cases ra <;> simp [subset, c0, c1, ea, eb], ?_⟩
             simp only [Bool.and_eq_true, hra, hrb, au, abs, List.mem_append, List.mem_cons, List.mem_singleton,
               List.not_mem_nil, or_false]
@@ -1356,20 +1357,20 @@ theorem subset_spec {cmp : E → E → Int} {rank : E → Int} (hc : Lawful cmp 
               · rintro x (hx | hx)
                 · rcases h x (Or.inl hx) with h' | h' | h'
                   · exact h'
-                  · have := bl1 x hx; rw [h'] at this; omega
-                  · have := bl1 x hx; have := br2 x h'; omega
+                  · have := bl1 x hx; rw [h'] at this; oo
+                  · have := bl1 x hx; have := br2 x h'; oo
                 · rcases h x (Or.inr (Or.inl hx)) with h' | h' | h'
                   · exact h'
                   · rw [hx] at h'; exact absurd h' ne
-                  · have := br2 x h'; rw [hx] at this; omega
+                  · have := br2 x h'; rw [hx] at this; oo
               · intro x hx; exact h x (Or.inr (Or.inr hx))
-          · have gt := hgt.1 (by omega)
+          · have gt := hgt.1 (by oo)
             obtain ⟨su, au⟩ := shape_unsafeNode_right r1 v1 sa.2.1
-            have ou : Ordered rank (unsafeNode .empty v1 r1) := by
+            have ou : Ordered (unsafeNode .empty v1 r1) := by
               simp only [Ordered, au, List.pairwise_cons]
               exact ⟨br1, or1⟩
-            obtain ⟨ra, ea, hra⟩ := ih (unsafeNode .empty v1 r1) r2 su ou sb.2.1 or2 (by rw [au]; simp; omega)
-            obtain ⟨rb, eb, hrb⟩ := ih l1 (.node h2 v2 l2 r2) sa.1 ol1 sb' ob (by omega)
+            obtain ⟨ra, ea, hra⟩ := ih (unsafeNode .empty v1 r1) r2 su ou sb.2.1 or2 (by rw [au]; simp; oo)
+            obtain ⟨rb, eb, hrb⟩ := ih l1 (.node h2 v2 l2 r2) sa.1 ol1 sb' ob (by oo)
             refine ⟨ra && rb, by cases ra <;> simp [subset, c0, c1, ea, eb], ?_⟩
             simp only [Bool.and_eq_true, hra, hrb, au, abs, List.mem_append, List.mem_cons]
             constructor
@@ -1381,17 +1382,17 @@ theorem subset_spec {cmp : E → E → Int} {rank : E → Int} (hc : Lawful cmp 
               constructor
               · rintro x (hx | hx)
                 · rcases h x (Or.inr (Or.inl hx)) with h' | h' | h'
-                  · have := bl2 x h'; rw [hx] at this; omega
+                  · have := bl2 x h'; rw [hx] at this; oo
                   · rw [hx] at h'; exact absurd h' ne
                   · exact h'
                 · rcases h x (Or.inr (Or.inr hx)) with h' | h' | h'
-                  · have := br1 x hx; have := bl2 x h'; omega
-                  · have := br1 x hx; rw [h'] at this; omega
+                  · have := br1 x hx; have := bl2 x h'; oo
+                  · have := br1 x hx; rw [h'] at this; oo
                   · exact h'
               · intro x hx; exact h x (Or.inl hx)
 
-theorem length_le_of_sorted_subset {rank : E → Int} :
-    ∀ (ys zs : List E), ys.Pairwise (fun a b => rank a < rank b) → (∀ y ∈ ys, y ∈ zs) →
+theorem length_le_of_sorted_subset :
+    ∀ (ys zs : List E), ys.Pairwise (fun a b => a < b) → (∀ y ∈ ys, y ∈ zs) →
       ys.length ≤ zs.length := by
   intro ys
   induction ys with
@@ -1401,14 +1402,14 @@ theorem length_le_of_sorted_subset {rank : E → Int} :
     simp only [List.pairwise_cons] at hp
     have hy : y ∈ zs := hs y (by simp)
     have := ih (zs.erase y) hp.2 (fun x hx => by
-      have ne : x ≠ y := fun e => by have := hp.1 x hx; rw [e] at this; omega
+      have ne : x ≠ y := fun e => by have := hp.1 x hx; rw [e] at this; oo
       exact (List.mem_erase_of_ne ne).2 (hs x (by simp [hx])))
     rw [List.length_erase_of_mem hy] at this
     have : zs.length ≥ 1 := List.length_pos_of_mem hy
-    simp only [List.length_cons]; omega
+    simp only [List.length_cons]; oo
 
-theorem le_last {rank : E → Int} (xs : List E) (hp : xs.Pairwise (fun a b => rank a < rank b)) (m : E)
-    (hm : xs.getLast? = some m) : ∀ x ∈ xs, rank x ≤ rank m := by
+theorem le_last (xs : List E) (hp : xs.Pairwise (fun a b => a < b)) (m : E)
+    (hm : xs.getLast? = some m) : ∀ x ∈ xs, x ≤ m := by
   induction xs with
   | nil => simp
   | cons a as ih =>
@@ -1422,11 +1423,11 @@ theorem le_last {rank : E → Int} (xs : List E) (hp : xs.Pairwise (fun a b => r
       · subst e
         have h1 := ih hp.2 hm b (by simp)
         have h2 := hp.1 b (by simp)
-        omega
+        oo
       · exact ih hp.2 hm x e
 
-theorem head_le {rank : E → Int} (xs : List E) (hp : xs.Pairwise (fun a b => rank a < rank b)) (m : E)
-    (hm : xs.head? = some m) : ∀ x ∈ xs, rank m ≤ rank x := by
+theorem head_le (xs : List E) (hp : xs.Pairwise (fun a b => a < b)) (m : E)
+    (hm : xs.head? = some m) : ∀ x ∈ xs, m ≤ x := by
   cases xs with
   | nil => simp
   | cons a as =>
@@ -1434,15 +1435,15 @@ theorem head_le {rank : E → Int} (xs : List E) (hp : xs.Pairwise (fun a b => r
     simp only [List.pairwise_cons] at hp
     intro x hx
     rcases List.mem_cons.1 hx with e | e
-    · subst e; omega
-    · have := hp.1 x e; omega
+    · subst e; oo
+    · have := hp.1 x e; oo
 
-theorem tryJoin_spec {cmp : E → E → Int} {rank : E → Int} (hc : Lawful cmp rank) (fuel : Nat)
-    (l r : STree E) (v : E) (il : Inv rank l) (ir : Inv rank r)
+theorem tryJoin_spec {cmp : E → E → Int} (hc : Lawful cmp) (fuel : Nat)
+    (l r : STree E) (v : E) (il : Inv l) (ir : Inv r)
     (hf : (abs l).length + (abs r).length + 1 < fuel) :
-    ∃ t, tryJoin cmp fuel l v r = some (some t) ∧ Inv rank t ∧
+    ∃ t, tryJoin cmp fuel l v r = some (some t) ∧ Inv t ∧
       ∀ y, y ∈ abs t ↔ (y ∈ abs l ∨ y = v ∨ y ∈ abs r) := by
-  have HL : ∃ bl : Bool, okLeft cmp l v = some bl ∧ (bl = true → ∀ x ∈ abs l, rank x < rank v) := by
+  have HL : ∃ bl : Bool, okLeft cmp l v = some bl ∧ (bl = true → ∀ x ∈ abs l, x < v) := by
     unfold okLeft
     cases hl : isEmpty l
     · have ne := abs_ne_nil_of_not_isEmpty l hl
@@ -1454,10 +1455,10 @@ theorem tryJoin_spec {cmp : E → E → Int} {rank : E → Int} (hc : Lawful cmp
         intro hb x hx
         have := le_last (abs l) il.2 m hm x hx
         have := (hc.lt m v).1 (by simpa using hb)
-        omega
+        oo
     · refine ⟨true, by simp, ?_⟩
       intro _ x hx; rw [(isEmpty_iff l).1 hl] at hx; simp at hx
-  have HR : ∃ br : Bool, okRight cmp r v = some br ∧ (br = true → ∀ x ∈ abs r, rank v < rank x) := by
+  have HR : ∃ br : Bool, okRight cmp r v = some br ∧ (br = true → ∀ x ∈ abs r, v < x) := by
     unfold okRight
     cases hr : isEmpty r
     · have ne := abs_ne_nil_of_not_isEmpty r hr
@@ -1469,7 +1470,7 @@ theorem tryJoin_spec {cmp : E → E → Int} {rank : E → Int} (hc : Lawful cmp
         intro hb x hx
         have := head_le (abs r) ir.2 m hm x hx
         have := (hc.lt v m).1 (by simpa using hb)
-        omega
+        oo
     · refine ⟨true, by simp, ?_⟩
       intro _ x hx; rw [(isEmpty_iff r).1 hr] at hx; simp at hx
   obtain ⟨bl, el, pl⟩ := HL
@@ -1477,9 +1478,9 @@ theorem tryJoin_spec {cmp : E → E → Int} {rank : E → Int} (hc : Lawful cmp
   -- fallback: union l (insert r v)
   obtain ⟨r', ei, ii, mi⟩ := inv_insert hc r v ir
   have lr' : (abs r').length ≤ (abs r).length + 1 :=
-    length_le_of_sorted_subset (rank := rank) (abs r') (v :: abs r) ii.2
+    length_le_of_sorted_subset (abs r') (v :: abs r) ii.2
       (fun y hy => by rcases (mi y).1 hy with h | h <;> simp [h])
-  obtain ⟨tu, eu, iu, mu⟩ := union_spec hc fuel l r' il ii (by omega)
+  obtain ⟨tu, eu, iu, mu⟩ := union_spec hc fuel l r' il ii (by oo)
   by_cases hb : bl = true ∧ br = true
   · obtain ⟨t, et, it, mt⟩ := inv_join l r v il ir (pl hb.1) (pr hb.2)
     refine ⟨t, ?_, it, mt⟩
@@ -1501,10 +1502,10 @@ theorem tryJoin_spec {cmp : E → E → Int} {rank : E → Int} (hc : Lawful cmp
 
 /-- **`Set.map`, total**: fuel above the size suffices; the result is the image set. `refEq` is any
 sound approximation of equality (the source uses reference equality). -/
-theorem map_spec {cmp : E → E → Int} {rank : E → Int} (hc : Lawful cmp rank) (refEq : E → E → Bool)
-    (hre : ∀ a b, refEq a b = true → a = b) (f : E → E) (fuel : Nat) (t : STree E) (hi : Inv rank t)
+theorem map_spec {cmp : E → E → Int} (hc : Lawful cmp) (refEq : E → E → Bool)
+    (hre : ∀ a b, refEq a b = true → a = b) (f : E → E) (fuel : Nat) (t : STree E) (hi : Inv t)
     (hf : (abs t).length < fuel) :
-    ∃ t', map cmp refEq f fuel t = some (some t') ∧ Inv rank t' ∧
+    ∃ t', map cmp refEq f fuel t = some (some t') ∧ Inv t' ∧
       (∀ y, y ∈ abs t' ↔ ∃ x ∈ abs t, f x = y) ∧ (abs t').length ≤ (abs t).length := by
   induction t with
   | empty => exact ⟨.empty, rfl, hi, by simp [abs], by simp⟩
@@ -1517,9 +1518,9 @@ theorem map_spec {cmp : E → E → Int} {rank : E → Int} (hc : Lawful cmp ran
   | node h v l r ihl ihr =>
     obtain ⟨il, ir, bl, br⟩ := inv_node hi
     have la : (abs (STree.node h v l r)).length = (abs l).length + 1 + (abs r).length := by
-      simp [abs]; omega
-    obtain ⟨newL, e1, i1, m1, n1⟩ := ihl il (by omega)
-    obtain ⟨newR, e2, i2, m2, n2⟩ := ihr ir (by omega)
+      simp [abs]; oo
+    obtain ⟨newL, e1, i1, m1, n1⟩ := ihl il (by oo)
+    obtain ⟨newR, e2, i2, m2, n2⟩ := ihr ir (by oo)
     simp only [map, e1, e2]
     have img : ∀ y, (y ∈ abs newL ∨ y = f v ∨ y ∈ abs newR) ↔ ∃ x ∈ abs (STree.node h v l r), f x = y := by
       intro y
@@ -1542,18 +1543,18 @@ theorem map_spec {cmp : E → E → Int} {rank : E → Int} (hc : Lawful cmp ran
       intro y
       rw [← img y]
       simp only [abs, List.mem_append, List.mem_cons, ← ev]
-    · obtain ⟨t', et, it, mt⟩ := tryJoin_spec hc fuel newL newR (f v) i1 i2 (by omega)
+    · obtain ⟨t', et, it, mt⟩ := tryJoin_spec hc fuel newL newR (f v) i1 i2 (by oo)
       refine ⟨t', by simp [same, et], it, fun y => by rw [mt, img], ?_⟩
       have : (abs t').length ≤ ((abs (STree.node h v l r)).map f).length :=
-        length_le_of_sorted_subset (rank := rank) _ _ it.2 (fun y hy => by
+        length_le_of_sorted_subset _ _ it.2 (fun y hy => by
           obtain ⟨x, hx, e⟩ := ((mt y).trans (img y)).1 hy
           exact List.mem_map.2 ⟨x, hx, e⟩)
       simpa using this
 
 /-- `t` represents the mathematical set `s` -/
-def SRel (rank : E → Int) (t : STree E) (s : E → Prop) : Prop := Inv rank t ∧ ∀ x, x ∈ abs t ↔ s x
+def SRel (t : STree E) (s : E → Prop) : Prop := Inv t ∧ ∀ x, x ∈ abs t ↔ s x
 
-theorem srel_empty (rank : E → Int) : SRel rank (STree.empty : STree E) (fun _ => False) := by
+theorem srel_empty : SRel (STree.empty : STree E) (fun _ => False) := by
   simp [SRel, Inv, Bal, Ordered, abs]
 
 inductive SOp (E : Type) where
@@ -1599,7 +1600,7 @@ def stepOp (cmp : E → E → Int) (regs : Nat → STree E) : SOp E → Option (
   | .frl d xs => (fromList cmp xs .empty).map (setReg regs d)
   | .map d s f => (mapF cmp f (regs s)).map (setReg regs d)
 
-def specOp (rank : E → Int) (ss : Nat → E → Prop) : SOp E → (Nat → E → Prop)
+def specOp (ss : Nat → E → Prop) : SOp E → (Nat → E → Prop)
   | .ins d s x => setReg ss d (fun p => p = x ∨ ss s p)
   | .rem d s x => setReg ss d (fun p => ss s p ∧ p ≠ x)
   | .uni d a b => setReg ss d (fun p => ss a p ∨ ss b p)
@@ -1608,8 +1609,8 @@ def specOp (rank : E → Int) (ss : Nat → E → Prop) : SOp E → (Nat → E 
   | .fil d s f => setReg ss d (fun p => ss s p ∧ f p = true)
   | .parT d s f => setReg ss d (fun p => ss s p ∧ f p = true)
   | .parF d s f => setReg ss d (fun p => ss s p ∧ f p = false)
-  | .splL d s k => setReg ss d (fun p => ss s p ∧ rank p < rank k)
-  | .splR d s k => setReg ss d (fun p => ss s p ∧ rank k < rank p)
+  | .splL d s k => setReg ss d (fun p => ss s p ∧ p < k)
+  | .splR d s k => setReg ss d (fun p => ss s p ∧ k < p)
   | .frl d xs => setReg ss d (fun p => p ∈ xs)
   | .map d s f => setReg ss d (fun y => ∃ x, ss s x ∧ f x = y)
 
@@ -1620,23 +1621,23 @@ def runOps (cmp : E → E → Int) : (Nat → STree E) → List (SOp E) → Opti
     | none => none
     | some regs' => runOps cmp regs' ops
 
-def specOps (rank : E → Int) : (Nat → E → Prop) → List (SOp E) → (Nat → E → Prop)
+def specOps : (Nat → E → Prop) → List (SOp E) → (Nat → E → Prop)
   | ss, [] => ss
-  | ss, op :: ops => specOps rank (specOp rank ss op) ops
+  | ss, op :: ops => specOps (specOp ss op) ops
 
-theorem srel_set {rank : E → Int} {regs : Nat → STree E} {ss : Nat → E → Prop}
-    (h : ∀ i, SRel rank (regs i) (ss i)) (d : Nat) {t : STree E} {s : E → Prop} (ht : SRel rank t s) :
-    ∀ i, SRel rank (setReg regs d t i) (setReg ss d s i) := by
+theorem srel_set {regs : Nat → STree E} {ss : Nat → E → Prop}
+    (h : ∀ i, SRel (regs i) (ss i)) (d : Nat) {t : STree E} {s : E → Prop} (ht : SRel t s) :
+    ∀ i, SRel (setReg regs d t i) (setReg ss d s i) := by
   intro i
   simp only [setReg]
   split
   · exact ht
   · exact h i
 
-theorem step_refines_map {cmp : E → E → Int} {rank : E → Int} (hc : Lawful cmp rank)
-    (regs : Nat → STree E) (ss : Nat → E → Prop) (h : ∀ i, SRel rank (regs i) (ss i)) (d s : Nat) (f : E → E) :
+theorem step_refines_map {cmp : E → E → Int} (hc : Lawful cmp)
+    (regs : Nat → STree E) (ss : Nat → E → Prop) (h : ∀ i, SRel (regs i) (ss i)) (d s : Nat) (f : E → E) :
     ∃ regs', stepOp cmp regs (.map d s f) = some regs' ∧
-      ∀ i, SRel rank (regs' i) (specOp rank ss (.map d s f) i) := by
+      ∀ i, SRel (regs' i) (specOp ss (.map d s f) i) := by
   obtain ⟨t', e, i, m, _⟩ := map_spec hc (fun _ _ => false) (by simp) f _ (regs s) (h s).1 (Nat.lt_succ_self _)
   refine ⟨_, by simp [stepOp, mapF, e], srel_set h d ⟨i, fun y => ?_⟩⟩
   rw [m]
@@ -1644,9 +1645,9 @@ theorem step_refines_map {cmp : E → E → Int} {rank : E → Int} (hc : Lawful
   · rintro ⟨x, hx, e⟩; exact ⟨x, ((h s).2 x).1 hx, e⟩
   · rintro ⟨x, hx, e⟩; exact ⟨x, ((h s).2 x).2 hx, e⟩
 
-theorem step_refines {cmp : E → E → Int} {rank : E → Int} (hc : Lawful cmp rank)
-    (regs : Nat → STree E) (ss : Nat → E → Prop) (h : ∀ i, SRel rank (regs i) (ss i)) (op : SOp E) :
-    ∃ regs', stepOp cmp regs op = some regs' ∧ ∀ i, SRel rank (regs' i) (specOp rank ss op i) := by
+theorem step_refines {cmp : E → E → Int} (hc : Lawful cmp)
+    (regs : Nat → STree E) (ss : Nat → E → Prop) (h : ∀ i, SRel (regs i) (ss i)) (op : SOp E) :
+    ∃ regs', stepOp cmp regs op = some regs' ∧ ∀ i, SRel (regs' i) (specOp ss op i) := by
   cases op with
   | ins d s x =>
     obtain ⟨t', e, i, m⟩ := inv_insert hc (regs s) x (h s).1
@@ -1678,34 +1679,34 @@ theorem step_refines {cmp : E → E → Int} {rank : E → Int} (hc : Lawful cmp
   | splL d s k =>
     obtain ⟨l, pres, r, e, i1, i2, m, g1, g2⟩ := split_inv hc (regs s) k (h s).1
     refine ⟨_, by simp [stepOp, e], srel_set h d ⟨i1, fun p => ?_⟩⟩
-    show p ∈ abs l ↔ (ss s p ∧ rank p < rank k)
+    show p ∈ abs l ↔ (ss s p ∧ p < k)
     rw [← (h s).2, m]
     constructor
     · intro hp; exact ⟨Or.inl hp, g1 p hp⟩
     · rintro ⟨hp | ⟨_, hp⟩ | hp, lt⟩
       · exact hp
-      · rw [hp] at lt; omega
-      · have := g2 p hp; omega
+      · rw [hp] at lt; oo
+      · have := g2 p hp; oo
   | splR d s k =>
     obtain ⟨l, pres, r, e, i1, i2, m, g1, g2⟩ := split_inv hc (regs s) k (h s).1
     refine ⟨_, by simp [stepOp, e], srel_set h d ⟨i2, fun p => ?_⟩⟩
-    show p ∈ abs r ↔ (ss s p ∧ rank k < rank p)
+    show p ∈ abs r ↔ (ss s p ∧ k < p)
     rw [← (h s).2, m]
     constructor
     · intro hp; exact ⟨Or.inr (Or.inr hp), g2 p hp⟩
     · rintro ⟨hp | ⟨_, hp⟩ | hp, lt⟩
-      · have := g1 p hp; omega
-      · rw [hp] at lt; omega
+      · have := g1 p hp; oo
+      · rw [hp] at lt; oo
       · exact hp
   | frl d xs =>
     obtain ⟨t', e, i, m⟩ := fromList_spec hc xs .empty ⟨by simp [Bal], by simp [Ordered, abs]⟩
     exact ⟨_, by simp [stepOp, e], srel_set h d ⟨i, fun p => by rw [m]; simp [abs]⟩⟩
   | map d s f => exact step_refines_map hc regs ss h d s f
 
-theorem ops_refine_lemma {cmp : E → E → Int} {rank : E → Int} (hc : Lawful cmp rank)
+theorem ops_refine_lemma {cmp : E → E → Int} (hc : Lawful cmp)
     (ops : List (SOp E)) (regs : Nat → STree E) (ss : Nat → E → Prop)
-    (h : ∀ i, SRel rank (regs i) (ss i)) :
-    ∃ regs', runOps cmp regs ops = some regs' ∧ ∀ i, SRel rank (regs' i) (specOps rank ss ops i) := by
+    (h : ∀ i, SRel (regs i) (ss i)) :
+    ∃ regs', runOps cmp regs ops = some regs' ∧ ∀ i, SRel (regs' i) (specOps ss ops i) := by
   induction ops generalizing regs ss with
   | nil => exact ⟨regs, rfl, h⟩
   | cons op ops ih =>
